@@ -1,5 +1,5 @@
 // auto-generated: "lalrpop 0.23.1"
-// sha3: 8d46dfd63bd0411c73c54bfe9bc8cd057c679c9824fe70081fa7cc5f71c80cad
+// sha3: f8cc59b2e896639aded8ff6f24e03938d3706e91c6ff0126e6384aeb73c95d53
 use crate::rt::*;
 #[allow(unused_extern_crates)]
 extern crate lalrpop_util as __lalrpop_util;
@@ -10,7 +10,7 @@ extern crate alloc;
 
 #[rustfmt::skip]
 #[allow(explicit_outlives_requirements, non_snake_case, non_camel_case_types, unused_mut, unused_variables, unused_imports, unused_parens, clippy::needless_lifetimes, clippy::type_complexity, clippy::needless_return, clippy::too_many_arguments, clippy::match_single_binding, clippy::clone_on_copy, clippy::unit_arg)]
-mod __parse__E {
+mod __parse__S {
 
     use crate::rt::*;
     #[allow(unused_extern_crates)]
@@ -29,152 +29,70 @@ mod __parse__E {
     }
     const __ACTION: &[i8] = &[
         // State 0
-        0, 0, 2, 0, 12, 0,
+        3, 4, 0,
         // State 1
-        0, 0, 2, 0, 12, 0,
+        5, 6, 0,
         // State 2
-        0, 0, 2, 0, 12, 0,
+        7, 8, 0,
         // State 3
-        0, 0, 2, 0, 12, 0,
+        9, 10, 0,
         // State 4
-        0, 0, 2, 0, 12, 0,
+        0, 0, 11,
         // State 5
-        0, 0, 2, 0, 12, 0,
+        0, 0, 12,
         // State 6
-        0, 0, 2, 0, 12, 0,
+        13, 14, 0,
         // State 7
-        0, 0, 2, 0, 12, 0,
+        15, 16, 0,
         // State 8
-        0, 0, 2, 0, 12, 0,
+        17, 18, 0,
         // State 9
-        3, 0, 0, 0, 0, 0,
+        19, 20, 0,
         // State 10
-        -6, 13, 0, -6, 0, 0,
+        -13, -13, 0,
         // State 11
-        0, 0, 0, 0, 16, 15,
+        -14, -14, 0,
         // State 12
-        0, 0, 4, 0, 18, 0,
+        0, 0, 21,
         // State 13
-        3, 0, 0, 19, 0, 0,
+        0, 0, 22,
         // State 14
-        0, 0, 0, 0, 20, 0,
+        0, 0, 23,
         // State 15
-        -37, -37, 0, -37, 0, 21,
+        0, 0, 24,
         // State 16
-        -5, 13, 0, -5, 0, 0,
+        0, 0, 25,
         // State 17
-        0, 0, 0, 0, 24, 23,
+        0, 0, 26,
         // State 18
-        -41, -41, 0, -41, 0, 0,
+        0, 0, 27,
         // State 19
-        -39, -39, 0, -39, 0, 25,
+        0, 0, 28,
         // State 20
-        -38, -38, 0, -38, 0, 0,
+        -5, -5, 0,
         // State 21
-        3, 0, 0, 26, 0, 0,
+        -6, -6, 0,
         // State 22
-        0, 0, 0, 0, 27, 0,
+        -7, -7, 0,
         // State 23
-        0, 0, 5, 0, 29, 28,
+        -8, -8, 0,
         // State 24
-        -40, -40, 0, -40, 0, 0,
+        -9, -9, 0,
         // State 25
-        0, 0, 6, 0, 30, 0,
+        -10, -10, 0,
         // State 26
-        0, 0, 7, 0, 32, 31,
+        -11, -11, 0,
         // State 27
-        0, 0, 8, 0, 34, 0,
-        // State 28
-        0, 0, 0, 0, 36, 35,
-        // State 29
-        0, 0, 0, 0, 39, 38,
-        // State 30
-        0, 0, 9, 0, 41, 0,
-        // State 31
-        0, 0, 0, 0, 43, 42,
-        // State 32
-        3, 0, 0, 44, 0, 0,
-        // State 33
-        0, 0, 0, 0, 47, 46,
-        // State 34
-        0, 0, 0, 0, 48, 0,
-        // State 35
-        -12, -12, 0, -12, 0, 49,
-        // State 36
-        3, 0, 0, 50, 0, 0,
-        // State 37
-        0, 0, 0, 0, 51, 0,
-        // State 38
-        -32, -32, 0, -32, 0, 52,
-        // State 39
-        3, 0, 0, 53, 0, 0,
-        // State 40
-        0, 0, 0, 0, 56, 55,
-        // State 41
-        0, 0, 0, 0, 57, 0,
-        // State 42
-        -22, -22, 0, -22, 0, 58,
-        // State 43
-        -16, -16, 0, -16, 0, 0,
-        // State 44
-        3, 0, 0, 59, 0, 0,
-        // State 45
-        0, 0, 0, 0, 60, 0,
-        // State 46
-        -17, -17, 0, -17, 0, 61,
-        // State 47
-        -14, -14, 0, -14, 0, 62,
-        // State 48
-        -13, -13, 0, -13, 0, 0,
-        // State 49
-        -36, -36, 0, -36, 0, 0,
-        // State 50
-        -34, -34, 0, -34, 0, 63,
-        // State 51
-        -33, -33, 0, -33, 0, 0,
-        // State 52
-        -26, -26, 0, -26, 0, 0,
-        // State 53
-        3, 0, 0, 64, 0, 0,
-        // State 54
-        0, 0, 0, 0, 65, 0,
-        // State 55
-        -27, -27, 0, -27, 0, 66,
-        // State 56
-        -24, -24, 0, -24, 0, 67,
-        // State 57
-        -23, -23, 0, -23, 0, 0,
-        // State 58
-        -21, -21, 0, -21, 0, 0,
-        // State 59
-        -19, -19, 0, -19, 0, 68,
-        // State 60
-        -18, -18, 0, -18, 0, 0,
-        // State 61
-        -15, -15, 0, -15, 0, 0,
-        // State 62
-        -35, -35, 0, -35, 0, 0,
-        // State 63
-        -31, -31, 0, -31, 0, 0,
-        // State 64
-        -29, -29, 0, -29, 0, 69,
-        // State 65
-        -28, -28, 0, -28, 0, 0,
-        // State 66
-        -25, -25, 0, -25, 0, 0,
-        // State 67
-        -20, -20, 0, -20, 0, 0,
-        // State 68
-        -30, -30, 0, -30, 0, 0,
+        -12, -12, 0,
     ];
     fn __action(state: i8, integer: usize) -> i8 {
-        __ACTION[(state as usize) * 6 + integer]
+        __ACTION[(state as usize) * 3 + integer]
     }
     const __EOF_ACTION: &[i8] = &[
         // State 0
         0,
         // State 1
-        0,
+        -15,
         // State 2
         0,
         // State 3
@@ -190,11 +108,11 @@ mod __parse__E {
         // State 8
         0,
         // State 9
-        -42,
-        // State 10
-        -6,
-        // State 11
         0,
+        // State 10
+        -13,
+        // State 11
+        -14,
         // State 12
         0,
         // State 13
@@ -202,141 +120,43 @@ mod __parse__E {
         // State 14
         0,
         // State 15
-        -37,
+        0,
         // State 16
-        -5,
+        0,
         // State 17
         0,
         // State 18
-        -41,
+        0,
         // State 19
-        -39,
+        0,
         // State 20
-        -38,
+        -5,
         // State 21
-        0,
+        -6,
         // State 22
-        0,
+        -7,
         // State 23
-        0,
+        -8,
         // State 24
-        -40,
+        -9,
         // State 25
-        0,
+        -10,
         // State 26
-        0,
+        -11,
         // State 27
-        0,
-        // State 28
-        0,
-        // State 29
-        0,
-        // State 30
-        0,
-        // State 31
-        0,
-        // State 32
-        0,
-        // State 33
-        0,
-        // State 34
-        0,
-        // State 35
         -12,
-        // State 36
-        0,
-        // State 37
-        0,
-        // State 38
-        -32,
-        // State 39
-        0,
-        // State 40
-        0,
-        // State 41
-        0,
-        // State 42
-        -22,
-        // State 43
-        -16,
-        // State 44
-        0,
-        // State 45
-        0,
-        // State 46
-        -17,
-        // State 47
-        -14,
-        // State 48
-        -13,
-        // State 49
-        -36,
-        // State 50
-        -34,
-        // State 51
-        -33,
-        // State 52
-        -26,
-        // State 53
-        0,
-        // State 54
-        0,
-        // State 55
-        -27,
-        // State 56
-        -24,
-        // State 57
-        -23,
-        // State 58
-        -21,
-        // State 59
-        -19,
-        // State 60
-        -18,
-        // State 61
-        -15,
-        // State 62
-        -35,
-        // State 63
-        -31,
-        // State 64
-        -29,
-        // State 65
-        -28,
-        // State 66
-        -25,
-        // State 67
-        -20,
-        // State 68
-        -30,
     ];
     fn __goto(state: i8, nt: usize) -> i8 {
         match nt {
-            3 => match state {
-                1 => 13,
-                3 => 21,
-                4 => 32,
-                5 => 36,
-                6 => 39,
-                7 => 44,
-                8 => 53,
-                _ => 9,
-            },
-            5 => match state {
-                2 => 16,
-                _ => 10,
-            },
+            3 => 1,
             _ => 0,
         }
     }
     #[allow(clippy::needless_raw_string_hashes)]
     const __TERMINAL: &[&str] = &[
-        r###""+""###,
-        r###""*""###,
-        r###""(""###,
-        r###"")""###,
-        r###""x""###,
-        r###""q""###,
+        r###""n""###,
+        r###""one""###,
+        r###""z""###,
     ];
     fn __expected_tokens(__state: i8) -> alloc::vec::Vec<alloc::string::String> {
         __TERMINAL.iter().enumerate().filter_map(|(index, terminal)| {
@@ -403,7 +223,7 @@ mod __parse__E {
 
         #[inline]
         fn error_action(&self, state: i8) -> i8 {
-            __action(state, 6 - 1)
+            __action(state, 3 - 1)
         }
 
         #[inline]
@@ -472,9 +292,6 @@ mod __parse__E {
             Tok('a', _, _, _) if true => Some(0),
             Tok('b', _, _, _) if true => Some(1),
             Tok('c', _, _, _) if true => Some(2),
-            Tok('d', _, _, _) if true => Some(3),
-            Tok('e', _, _, _) if true => Some(4),
-            Tok('f', _, _, _) if true => Some(5),
             _ => None,
         }
     }
@@ -486,7 +303,7 @@ mod __parse__E {
     ) -> __Symbol<>
     {
         #[allow(clippy::manual_range_patterns)]match __token_index {
-            0 | 1 | 2 | 3 | 4 | 5 => __Symbol::Variant0(__token),
+            0 | 1 | 2 => __Symbol::Variant0(__token),
             _ => unreachable!(),
         }
     }
@@ -517,244 +334,82 @@ mod __parse__E {
             }
             3 => {
                 __state_machine::SimulatedReduce::Reduce {
-                    states_to_pop: 2,
+                    states_to_pop: 1,
                     nonterminal_produced: 2,
                 }
             }
             4 => {
                 __state_machine::SimulatedReduce::Reduce {
-                    states_to_pop: 3,
+                    states_to_pop: 4,
                     nonterminal_produced: 3,
                 }
             }
             5 => {
                 __state_machine::SimulatedReduce::Reduce {
-                    states_to_pop: 1,
+                    states_to_pop: 4,
                     nonterminal_produced: 3,
                 }
             }
             6 => {
                 __state_machine::SimulatedReduce::Reduce {
-                    states_to_pop: 2,
-                    nonterminal_produced: 4,
+                    states_to_pop: 4,
+                    nonterminal_produced: 3,
                 }
             }
             7 => {
                 __state_machine::SimulatedReduce::Reduce {
-                    states_to_pop: 3,
-                    nonterminal_produced: 4,
+                    states_to_pop: 4,
+                    nonterminal_produced: 3,
                 }
             }
             8 => {
                 __state_machine::SimulatedReduce::Reduce {
-                    states_to_pop: 3,
-                    nonterminal_produced: 4,
+                    states_to_pop: 4,
+                    nonterminal_produced: 3,
                 }
             }
             9 => {
                 __state_machine::SimulatedReduce::Reduce {
                     states_to_pop: 4,
-                    nonterminal_produced: 4,
+                    nonterminal_produced: 3,
                 }
             }
             10 => {
                 __state_machine::SimulatedReduce::Reduce {
-                    states_to_pop: 3,
-                    nonterminal_produced: 4,
+                    states_to_pop: 4,
+                    nonterminal_produced: 3,
                 }
             }
             11 => {
                 __state_machine::SimulatedReduce::Reduce {
-                    states_to_pop: 6,
-                    nonterminal_produced: 5,
+                    states_to_pop: 4,
+                    nonterminal_produced: 3,
                 }
             }
             12 => {
                 __state_machine::SimulatedReduce::Reduce {
-                    states_to_pop: 7,
-                    nonterminal_produced: 5,
+                    states_to_pop: 3,
+                    nonterminal_produced: 3,
                 }
             }
             13 => {
                 __state_machine::SimulatedReduce::Reduce {
-                    states_to_pop: 7,
-                    nonterminal_produced: 5,
-                }
-            }
-            14 => {
-                __state_machine::SimulatedReduce::Reduce {
-                    states_to_pop: 8,
-                    nonterminal_produced: 5,
-                }
-            }
-            15 => {
-                __state_machine::SimulatedReduce::Reduce {
-                    states_to_pop: 7,
-                    nonterminal_produced: 5,
-                }
-            }
-            16 => {
-                __state_machine::SimulatedReduce::Reduce {
-                    states_to_pop: 7,
-                    nonterminal_produced: 5,
-                }
-            }
-            17 => {
-                __state_machine::SimulatedReduce::Reduce {
-                    states_to_pop: 8,
-                    nonterminal_produced: 5,
-                }
-            }
-            18 => {
-                __state_machine::SimulatedReduce::Reduce {
-                    states_to_pop: 8,
-                    nonterminal_produced: 5,
-                }
-            }
-            19 => {
-                __state_machine::SimulatedReduce::Reduce {
-                    states_to_pop: 9,
-                    nonterminal_produced: 5,
-                }
-            }
-            20 => {
-                __state_machine::SimulatedReduce::Reduce {
-                    states_to_pop: 8,
-                    nonterminal_produced: 5,
-                }
-            }
-            21 => {
-                __state_machine::SimulatedReduce::Reduce {
-                    states_to_pop: 7,
-                    nonterminal_produced: 5,
-                }
-            }
-            22 => {
-                __state_machine::SimulatedReduce::Reduce {
-                    states_to_pop: 8,
-                    nonterminal_produced: 5,
-                }
-            }
-            23 => {
-                __state_machine::SimulatedReduce::Reduce {
-                    states_to_pop: 8,
-                    nonterminal_produced: 5,
-                }
-            }
-            24 => {
-                __state_machine::SimulatedReduce::Reduce {
-                    states_to_pop: 9,
-                    nonterminal_produced: 5,
-                }
-            }
-            25 => {
-                __state_machine::SimulatedReduce::Reduce {
-                    states_to_pop: 8,
-                    nonterminal_produced: 5,
-                }
-            }
-            26 => {
-                __state_machine::SimulatedReduce::Reduce {
-                    states_to_pop: 8,
-                    nonterminal_produced: 5,
-                }
-            }
-            27 => {
-                __state_machine::SimulatedReduce::Reduce {
-                    states_to_pop: 9,
-                    nonterminal_produced: 5,
-                }
-            }
-            28 => {
-                __state_machine::SimulatedReduce::Reduce {
-                    states_to_pop: 9,
-                    nonterminal_produced: 5,
-                }
-            }
-            29 => {
-                __state_machine::SimulatedReduce::Reduce {
-                    states_to_pop: 10,
-                    nonterminal_produced: 5,
-                }
-            }
-            30 => {
-                __state_machine::SimulatedReduce::Reduce {
-                    states_to_pop: 9,
-                    nonterminal_produced: 5,
-                }
-            }
-            31 => {
-                __state_machine::SimulatedReduce::Reduce {
-                    states_to_pop: 7,
-                    nonterminal_produced: 5,
-                }
-            }
-            32 => {
-                __state_machine::SimulatedReduce::Reduce {
-                    states_to_pop: 8,
-                    nonterminal_produced: 5,
-                }
-            }
-            33 => {
-                __state_machine::SimulatedReduce::Reduce {
-                    states_to_pop: 8,
-                    nonterminal_produced: 5,
-                }
-            }
-            34 => {
-                __state_machine::SimulatedReduce::Reduce {
-                    states_to_pop: 9,
-                    nonterminal_produced: 5,
-                }
-            }
-            35 => {
-                __state_machine::SimulatedReduce::Reduce {
-                    states_to_pop: 8,
-                    nonterminal_produced: 5,
-                }
-            }
-            36 => {
-                __state_machine::SimulatedReduce::Reduce {
-                    states_to_pop: 2,
-                    nonterminal_produced: 5,
-                }
-            }
-            37 => {
-                __state_machine::SimulatedReduce::Reduce {
                     states_to_pop: 3,
-                    nonterminal_produced: 5,
+                    nonterminal_produced: 3,
                 }
             }
-            38 => {
-                __state_machine::SimulatedReduce::Reduce {
-                    states_to_pop: 3,
-                    nonterminal_produced: 5,
-                }
-            }
-            39 => {
-                __state_machine::SimulatedReduce::Reduce {
-                    states_to_pop: 4,
-                    nonterminal_produced: 5,
-                }
-            }
-            40 => {
-                __state_machine::SimulatedReduce::Reduce {
-                    states_to_pop: 3,
-                    nonterminal_produced: 5,
-                }
-            }
-            41 => __state_machine::SimulatedReduce::Accept,
+            14 => __state_machine::SimulatedReduce::Accept,
             _ => panic!("invalid reduction index {__reduce_index}")
         }
     }
-    pub struct EParser {
+    pub struct SParser {
         _priv: (),
     }
 
-    impl Default for EParser { fn default() -> Self { Self::new() } }
-    impl EParser {
-        pub fn new() -> EParser {
-            EParser {
+    impl Default for SParser { fn default() -> Self { Self::new() } }
+    impl SParser {
+        pub fn new() -> SParser {
+            SParser {
                 _priv: (),
             }
         }
@@ -827,124 +482,142 @@ mod __parse__E {
                 __reduce1(__lookahead_start, __symbols, core::marker::PhantomData::<()>)
             }
             2 => {
-                __reduce2(__lookahead_start, __symbols, core::marker::PhantomData::<()>)
+                // J = "n" => ActionFn(11);
+                let __sym0 = __pop_Variant0(__symbols);
+                let __start = __sym0.0.clone();
+                let __end = __sym0.2.clone();
+                let __nt = match super::__action11::<>(__sym0) {
+                    Ok(v) => v,
+                    Err(e) => return Some(Err(e)),
+                };
+                __symbols.push((__start, __Symbol::Variant2(__nt), __end));
+                (1, 2)
             }
             3 => {
                 __reduce3(__lookahead_start, __symbols, core::marker::PhantomData::<()>)
             }
             4 => {
-                __reduce4(__lookahead_start, __symbols, core::marker::PhantomData::<()>)
+                // S = "n", "n", "n", "z" => ActionFn(15);
+                assert!(__symbols.len() >= 4);
+                let __sym3 = __pop_Variant0(__symbols);
+                let __sym2 = __pop_Variant0(__symbols);
+                let __sym1 = __pop_Variant0(__symbols);
+                let __sym0 = __pop_Variant0(__symbols);
+                let __start = __sym0.0.clone();
+                let __end = __sym3.2.clone();
+                let __nt = match super::__action15::<>(__sym0, __sym1, __sym2, __sym3) {
+                    Ok(v) => v,
+                    Err(e) => return Some(Err(e)),
+                };
+                __symbols.push((__start, __Symbol::Variant2(__nt), __end));
+                (4, 3)
             }
             5 => {
-                __reduce5(__lookahead_start, __symbols, core::marker::PhantomData::<()>)
+                // S = "n", "n", "one", "z" => ActionFn(16);
+                assert!(__symbols.len() >= 4);
+                let __sym3 = __pop_Variant0(__symbols);
+                let __sym2 = __pop_Variant0(__symbols);
+                let __sym1 = __pop_Variant0(__symbols);
+                let __sym0 = __pop_Variant0(__symbols);
+                let __start = __sym0.0.clone();
+                let __end = __sym3.2.clone();
+                let __nt = match super::__action16::<>(__sym0, __sym1, __sym2, __sym3) {
+                    Ok(v) => v,
+                    Err(e) => return Some(Err(e)),
+                };
+                __symbols.push((__start, __Symbol::Variant2(__nt), __end));
+                (4, 3)
             }
             6 => {
-                __reduce6(__lookahead_start, __symbols, core::marker::PhantomData::<()>)
+                // S = "n", "one", "n", "z" => ActionFn(17);
+                assert!(__symbols.len() >= 4);
+                let __sym3 = __pop_Variant0(__symbols);
+                let __sym2 = __pop_Variant0(__symbols);
+                let __sym1 = __pop_Variant0(__symbols);
+                let __sym0 = __pop_Variant0(__symbols);
+                let __start = __sym0.0.clone();
+                let __end = __sym3.2.clone();
+                let __nt = match super::__action17::<>(__sym0, __sym1, __sym2, __sym3) {
+                    Ok(v) => v,
+                    Err(e) => return Some(Err(e)),
+                };
+                __symbols.push((__start, __Symbol::Variant2(__nt), __end));
+                (4, 3)
             }
             7 => {
                 __reduce7(__lookahead_start, __symbols, core::marker::PhantomData::<()>)
             }
             8 => {
-                __reduce8(__lookahead_start, __symbols, core::marker::PhantomData::<()>)
+                // S = "one", "n", "n", "z" => ActionFn(19);
+                assert!(__symbols.len() >= 4);
+                let __sym3 = __pop_Variant0(__symbols);
+                let __sym2 = __pop_Variant0(__symbols);
+                let __sym1 = __pop_Variant0(__symbols);
+                let __sym0 = __pop_Variant0(__symbols);
+                let __start = __sym0.0.clone();
+                let __end = __sym3.2.clone();
+                let __nt = match super::__action19::<>(__sym0, __sym1, __sym2, __sym3) {
+                    Ok(v) => v,
+                    Err(e) => return Some(Err(e)),
+                };
+                __symbols.push((__start, __Symbol::Variant2(__nt), __end));
+                (4, 3)
             }
             9 => {
-                __reduce9(__lookahead_start, __symbols, core::marker::PhantomData::<()>)
+                // S = "one", "n", "one", "z" => ActionFn(20);
+                assert!(__symbols.len() >= 4);
+                let __sym3 = __pop_Variant0(__symbols);
+                let __sym2 = __pop_Variant0(__symbols);
+                let __sym1 = __pop_Variant0(__symbols);
+                let __sym0 = __pop_Variant0(__symbols);
+                let __start = __sym0.0.clone();
+                let __end = __sym3.2.clone();
+                let __nt = match super::__action20::<>(__sym0, __sym1, __sym2, __sym3) {
+                    Ok(v) => v,
+                    Err(e) => return Some(Err(e)),
+                };
+                __symbols.push((__start, __Symbol::Variant2(__nt), __end));
+                (4, 3)
             }
             10 => {
-                __reduce10(__lookahead_start, __symbols, core::marker::PhantomData::<()>)
+                // S = "one", "one", "n", "z" => ActionFn(21);
+                assert!(__symbols.len() >= 4);
+                let __sym3 = __pop_Variant0(__symbols);
+                let __sym2 = __pop_Variant0(__symbols);
+                let __sym1 = __pop_Variant0(__symbols);
+                let __sym0 = __pop_Variant0(__symbols);
+                let __start = __sym0.0.clone();
+                let __end = __sym3.2.clone();
+                let __nt = match super::__action21::<>(__sym0, __sym1, __sym2, __sym3) {
+                    Ok(v) => v,
+                    Err(e) => return Some(Err(e)),
+                };
+                __symbols.push((__start, __Symbol::Variant2(__nt), __end));
+                (4, 3)
             }
             11 => {
                 __reduce11(__lookahead_start, __symbols, core::marker::PhantomData::<()>)
             }
             12 => {
-                __reduce12(__lookahead_start, __symbols, core::marker::PhantomData::<()>)
+                // S = S, "n", "z" => ActionFn(23);
+                assert!(__symbols.len() >= 3);
+                let __sym2 = __pop_Variant0(__symbols);
+                let __sym1 = __pop_Variant0(__symbols);
+                let __sym0 = __pop_Variant2(__symbols);
+                let __start = __sym0.0.clone();
+                let __end = __sym2.2.clone();
+                let __nt = match super::__action23::<>(__sym0, __sym1, __sym2) {
+                    Ok(v) => v,
+                    Err(e) => return Some(Err(e)),
+                };
+                __symbols.push((__start, __Symbol::Variant2(__nt), __end));
+                (3, 3)
             }
             13 => {
                 __reduce13(__lookahead_start, __symbols, core::marker::PhantomData::<()>)
             }
             14 => {
-                __reduce14(__lookahead_start, __symbols, core::marker::PhantomData::<()>)
-            }
-            15 => {
-                __reduce15(__lookahead_start, __symbols, core::marker::PhantomData::<()>)
-            }
-            16 => {
-                __reduce16(__lookahead_start, __symbols, core::marker::PhantomData::<()>)
-            }
-            17 => {
-                __reduce17(__lookahead_start, __symbols, core::marker::PhantomData::<()>)
-            }
-            18 => {
-                __reduce18(__lookahead_start, __symbols, core::marker::PhantomData::<()>)
-            }
-            19 => {
-                __reduce19(__lookahead_start, __symbols, core::marker::PhantomData::<()>)
-            }
-            20 => {
-                __reduce20(__lookahead_start, __symbols, core::marker::PhantomData::<()>)
-            }
-            21 => {
-                __reduce21(__lookahead_start, __symbols, core::marker::PhantomData::<()>)
-            }
-            22 => {
-                __reduce22(__lookahead_start, __symbols, core::marker::PhantomData::<()>)
-            }
-            23 => {
-                __reduce23(__lookahead_start, __symbols, core::marker::PhantomData::<()>)
-            }
-            24 => {
-                __reduce24(__lookahead_start, __symbols, core::marker::PhantomData::<()>)
-            }
-            25 => {
-                __reduce25(__lookahead_start, __symbols, core::marker::PhantomData::<()>)
-            }
-            26 => {
-                __reduce26(__lookahead_start, __symbols, core::marker::PhantomData::<()>)
-            }
-            27 => {
-                __reduce27(__lookahead_start, __symbols, core::marker::PhantomData::<()>)
-            }
-            28 => {
-                __reduce28(__lookahead_start, __symbols, core::marker::PhantomData::<()>)
-            }
-            29 => {
-                __reduce29(__lookahead_start, __symbols, core::marker::PhantomData::<()>)
-            }
-            30 => {
-                __reduce30(__lookahead_start, __symbols, core::marker::PhantomData::<()>)
-            }
-            31 => {
-                __reduce31(__lookahead_start, __symbols, core::marker::PhantomData::<()>)
-            }
-            32 => {
-                __reduce32(__lookahead_start, __symbols, core::marker::PhantomData::<()>)
-            }
-            33 => {
-                __reduce33(__lookahead_start, __symbols, core::marker::PhantomData::<()>)
-            }
-            34 => {
-                __reduce34(__lookahead_start, __symbols, core::marker::PhantomData::<()>)
-            }
-            35 => {
-                __reduce35(__lookahead_start, __symbols, core::marker::PhantomData::<()>)
-            }
-            36 => {
-                __reduce36(__lookahead_start, __symbols, core::marker::PhantomData::<()>)
-            }
-            37 => {
-                __reduce37(__lookahead_start, __symbols, core::marker::PhantomData::<()>)
-            }
-            38 => {
-                __reduce38(__lookahead_start, __symbols, core::marker::PhantomData::<()>)
-            }
-            39 => {
-                __reduce39(__lookahead_start, __symbols, core::marker::PhantomData::<()>)
-            }
-            40 => {
-                __reduce40(__lookahead_start, __symbols, core::marker::PhantomData::<()>)
-            }
-            41 => {
-                // __E = E => ActionFn(0);
+                // __S = S => ActionFn(0);
                 let __sym0 = __pop_Variant2(__symbols);
                 let __start = __sym0.0.clone();
                 let __end = __sym0.2.clone();
@@ -1001,10 +674,10 @@ mod __parse__E {
         _: core::marker::PhantomData<()>,
     ) -> (usize, usize)
     {
-        // @L =  => ActionFn(10);
+        // @L =  => ActionFn(6);
         let __start = __lookahead_start.cloned().or_else(|| __symbols.last().map(|s| s.2.clone())).unwrap_or_default();
         let __end = __start.clone();
-        let __nt = super::__action10::<>(&__start, &__end);
+        let __nt = super::__action6::<>(&__start, &__end);
         __symbols.push((__start, __Symbol::Variant1(__nt), __end));
         (0, 0)
     }
@@ -1015,27 +688,12 @@ mod __parse__E {
         _: core::marker::PhantomData<()>,
     ) -> (usize, usize)
     {
-        // @R =  => ActionFn(9);
+        // @R =  => ActionFn(5);
         let __start = __lookahead_start.cloned().or_else(|| __symbols.last().map(|s| s.2.clone())).unwrap_or_default();
         let __end = __start.clone();
-        let __nt = super::__action9::<>(&__start, &__end);
+        let __nt = super::__action5::<>(&__start, &__end);
         __symbols.push((__start, __Symbol::Variant1(__nt), __end));
         (0, 1)
-    }
-    fn __reduce2<
-    >(
-        __lookahead_start: Option<&i64>,
-        __symbols: &mut alloc::vec::Vec<(i64,__Symbol<>,i64)>,
-        _: core::marker::PhantomData<()>,
-    ) -> (usize, usize)
-    {
-        // A = "x" => ActionFn(19);
-        let __sym0 = __pop_Variant0(__symbols);
-        let __start = __sym0.0.clone();
-        let __end = __sym0.2.clone();
-        let __nt = super::__action19::<>(__sym0);
-        __symbols.push((__start, __Symbol::Variant2(__nt), __end));
-        (1, 2)
     }
     fn __reduce3<
     >(
@@ -1044,65 +702,13 @@ mod __parse__E {
         _: core::marker::PhantomData<()>,
     ) -> (usize, usize)
     {
-        // A = "x", "q" => ActionFn(20);
-        assert!(__symbols.len() >= 2);
-        let __sym1 = __pop_Variant0(__symbols);
+        // J = "one" => ActionFn(12);
         let __sym0 = __pop_Variant0(__symbols);
-        let __start = __sym0.0.clone();
-        let __end = __sym1.2.clone();
-        let __nt = super::__action20::<>(__sym0, __sym1);
-        __symbols.push((__start, __Symbol::Variant2(__nt), __end));
-        (2, 2)
-    }
-    fn __reduce4<
-    >(
-        __lookahead_start: Option<&i64>,
-        __symbols: &mut alloc::vec::Vec<(i64,__Symbol<>,i64)>,
-        _: core::marker::PhantomData<()>,
-    ) -> (usize, usize)
-    {
-        // E = E, "+", T => ActionFn(21);
-        assert!(__symbols.len() >= 3);
-        let __sym2 = __pop_Variant2(__symbols);
-        let __sym1 = __pop_Variant0(__symbols);
-        let __sym0 = __pop_Variant2(__symbols);
-        let __start = __sym0.0.clone();
-        let __end = __sym2.2.clone();
-        let __nt = super::__action21::<>(__sym0, __sym1, __sym2);
-        __symbols.push((__start, __Symbol::Variant2(__nt), __end));
-        (3, 3)
-    }
-    fn __reduce5<
-    >(
-        __lookahead_start: Option<&i64>,
-        __symbols: &mut alloc::vec::Vec<(i64,__Symbol<>,i64)>,
-        _: core::marker::PhantomData<()>,
-    ) -> (usize, usize)
-    {
-        // E = T => ActionFn(22);
-        let __sym0 = __pop_Variant2(__symbols);
         let __start = __sym0.0.clone();
         let __end = __sym0.2.clone();
-        let __nt = super::__action22::<>(__sym0);
+        let __nt = super::__action12::<>(__sym0);
         __symbols.push((__start, __Symbol::Variant2(__nt), __end));
-        (1, 3)
-    }
-    fn __reduce6<
-    >(
-        __lookahead_start: Option<&i64>,
-        __symbols: &mut alloc::vec::Vec<(i64,__Symbol<>,i64)>,
-        _: core::marker::PhantomData<()>,
-    ) -> (usize, usize)
-    {
-        // F = "x", "x" => ActionFn(27);
-        assert!(__symbols.len() >= 2);
-        let __sym1 = __pop_Variant0(__symbols);
-        let __sym0 = __pop_Variant0(__symbols);
-        let __start = __sym0.0.clone();
-        let __end = __sym1.2.clone();
-        let __nt = super::__action27::<>(__sym0, __sym1);
-        __symbols.push((__start, __Symbol::Variant2(__nt), __end));
-        (2, 4)
+        (1, 2)
     }
     fn __reduce7<
     >(
@@ -1111,43 +717,7 @@ mod __parse__E {
         _: core::marker::PhantomData<()>,
     ) -> (usize, usize)
     {
-        // F = "x", "x", "q" => ActionFn(28);
-        assert!(__symbols.len() >= 3);
-        let __sym2 = __pop_Variant0(__symbols);
-        let __sym1 = __pop_Variant0(__symbols);
-        let __sym0 = __pop_Variant0(__symbols);
-        let __start = __sym0.0.clone();
-        let __end = __sym2.2.clone();
-        let __nt = super::__action28::<>(__sym0, __sym1, __sym2);
-        __symbols.push((__start, __Symbol::Variant2(__nt), __end));
-        (3, 4)
-    }
-    fn __reduce8<
-    >(
-        __lookahead_start: Option<&i64>,
-        __symbols: &mut alloc::vec::Vec<(i64,__Symbol<>,i64)>,
-        _: core::marker::PhantomData<()>,
-    ) -> (usize, usize)
-    {
-        // F = "x", "q", "x" => ActionFn(29);
-        assert!(__symbols.len() >= 3);
-        let __sym2 = __pop_Variant0(__symbols);
-        let __sym1 = __pop_Variant0(__symbols);
-        let __sym0 = __pop_Variant0(__symbols);
-        let __start = __sym0.0.clone();
-        let __end = __sym2.2.clone();
-        let __nt = super::__action29::<>(__sym0, __sym1, __sym2);
-        __symbols.push((__start, __Symbol::Variant2(__nt), __end));
-        (3, 4)
-    }
-    fn __reduce9<
-    >(
-        __lookahead_start: Option<&i64>,
-        __symbols: &mut alloc::vec::Vec<(i64,__Symbol<>,i64)>,
-        _: core::marker::PhantomData<()>,
-    ) -> (usize, usize)
-    {
-        // F = "x", "q", "x", "q" => ActionFn(30);
+        // S = "n", "one", "one", "z" => ActionFn(18);
         assert!(__symbols.len() >= 4);
         let __sym3 = __pop_Variant0(__symbols);
         let __sym2 = __pop_Variant0(__symbols);
@@ -1155,27 +725,9 @@ mod __parse__E {
         let __sym0 = __pop_Variant0(__symbols);
         let __start = __sym0.0.clone();
         let __end = __sym3.2.clone();
-        let __nt = super::__action30::<>(__sym0, __sym1, __sym2, __sym3);
+        let __nt = super::__action18::<>(__sym0, __sym1, __sym2, __sym3);
         __symbols.push((__start, __Symbol::Variant2(__nt), __end));
-        (4, 4)
-    }
-    fn __reduce10<
-    >(
-        __lookahead_start: Option<&i64>,
-        __symbols: &mut alloc::vec::Vec<(i64,__Symbol<>,i64)>,
-        _: core::marker::PhantomData<()>,
-    ) -> (usize, usize)
-    {
-        // F = "(", E, ")" => ActionFn(24);
-        assert!(__symbols.len() >= 3);
-        let __sym2 = __pop_Variant0(__symbols);
-        let __sym1 = __pop_Variant2(__symbols);
-        let __sym0 = __pop_Variant0(__symbols);
-        let __start = __sym0.0.clone();
-        let __end = __sym2.2.clone();
-        let __nt = super::__action24::<>(__sym0, __sym1, __sym2);
-        __symbols.push((__start, __Symbol::Variant2(__nt), __end));
-        (3, 4)
+        (4, 3)
     }
     fn __reduce11<
     >(
@@ -1184,41 +736,17 @@ mod __parse__E {
         _: core::marker::PhantomData<()>,
     ) -> (usize, usize)
     {
-        // T = T, "*", "x", "x", "x", "x" => ActionFn(31);
-        assert!(__symbols.len() >= 6);
-        let __sym5 = __pop_Variant0(__symbols);
-        let __sym4 = __pop_Variant0(__symbols);
+        // S = "one", "one", "one", "z" => ActionFn(22);
+        assert!(__symbols.len() >= 4);
         let __sym3 = __pop_Variant0(__symbols);
         let __sym2 = __pop_Variant0(__symbols);
         let __sym1 = __pop_Variant0(__symbols);
-        let __sym0 = __pop_Variant2(__symbols);
+        let __sym0 = __pop_Variant0(__symbols);
         let __start = __sym0.0.clone();
-        let __end = __sym5.2.clone();
-        let __nt = super::__action31::<>(__sym0, __sym1, __sym2, __sym3, __sym4, __sym5);
+        let __end = __sym3.2.clone();
+        let __nt = super::__action22::<>(__sym0, __sym1, __sym2, __sym3);
         __symbols.push((__start, __Symbol::Variant2(__nt), __end));
-        (6, 5)
-    }
-    fn __reduce12<
-    >(
-        __lookahead_start: Option<&i64>,
-        __symbols: &mut alloc::vec::Vec<(i64,__Symbol<>,i64)>,
-        _: core::marker::PhantomData<()>,
-    ) -> (usize, usize)
-    {
-        // T = T, "*", "x", "x", "x", "x", "q" => ActionFn(32);
-        assert!(__symbols.len() >= 7);
-        let __sym6 = __pop_Variant0(__symbols);
-        let __sym5 = __pop_Variant0(__symbols);
-        let __sym4 = __pop_Variant0(__symbols);
-        let __sym3 = __pop_Variant0(__symbols);
-        let __sym2 = __pop_Variant0(__symbols);
-        let __sym1 = __pop_Variant0(__symbols);
-        let __sym0 = __pop_Variant2(__symbols);
-        let __start = __sym0.0.clone();
-        let __end = __sym6.2.clone();
-        let __nt = super::__action32::<>(__sym0, __sym1, __sym2, __sym3, __sym4, __sym5, __sym6);
-        __symbols.push((__start, __Symbol::Variant2(__nt), __end));
-        (7, 5)
+        (4, 3)
     }
     fn __reduce13<
     >(
@@ -1227,624 +755,20 @@ mod __parse__E {
         _: core::marker::PhantomData<()>,
     ) -> (usize, usize)
     {
-        // T = T, "*", "x", "x", "x", "q", "x" => ActionFn(33);
-        assert!(__symbols.len() >= 7);
-        let __sym6 = __pop_Variant0(__symbols);
-        let __sym5 = __pop_Variant0(__symbols);
-        let __sym4 = __pop_Variant0(__symbols);
-        let __sym3 = __pop_Variant0(__symbols);
-        let __sym2 = __pop_Variant0(__symbols);
-        let __sym1 = __pop_Variant0(__symbols);
-        let __sym0 = __pop_Variant2(__symbols);
-        let __start = __sym0.0.clone();
-        let __end = __sym6.2.clone();
-        let __nt = super::__action33::<>(__sym0, __sym1, __sym2, __sym3, __sym4, __sym5, __sym6);
-        __symbols.push((__start, __Symbol::Variant2(__nt), __end));
-        (7, 5)
-    }
-    fn __reduce14<
-    >(
-        __lookahead_start: Option<&i64>,
-        __symbols: &mut alloc::vec::Vec<(i64,__Symbol<>,i64)>,
-        _: core::marker::PhantomData<()>,
-    ) -> (usize, usize)
-    {
-        // T = T, "*", "x", "x", "x", "q", "x", "q" => ActionFn(34);
-        assert!(__symbols.len() >= 8);
-        let __sym7 = __pop_Variant0(__symbols);
-        let __sym6 = __pop_Variant0(__symbols);
-        let __sym5 = __pop_Variant0(__symbols);
-        let __sym4 = __pop_Variant0(__symbols);
-        let __sym3 = __pop_Variant0(__symbols);
-        let __sym2 = __pop_Variant0(__symbols);
-        let __sym1 = __pop_Variant0(__symbols);
-        let __sym0 = __pop_Variant2(__symbols);
-        let __start = __sym0.0.clone();
-        let __end = __sym7.2.clone();
-        let __nt = super::__action34::<>(__sym0, __sym1, __sym2, __sym3, __sym4, __sym5, __sym6, __sym7);
-        __symbols.push((__start, __Symbol::Variant2(__nt), __end));
-        (8, 5)
-    }
-    fn __reduce15<
-    >(
-        __lookahead_start: Option<&i64>,
-        __symbols: &mut alloc::vec::Vec<(i64,__Symbol<>,i64)>,
-        _: core::marker::PhantomData<()>,
-    ) -> (usize, usize)
-    {
-        // T = T, "*", "x", "x", "(", E, ")" => ActionFn(35);
-        assert!(__symbols.len() >= 7);
-        let __sym6 = __pop_Variant0(__symbols);
-        let __sym5 = __pop_Variant2(__symbols);
-        let __sym4 = __pop_Variant0(__symbols);
-        let __sym3 = __pop_Variant0(__symbols);
-        let __sym2 = __pop_Variant0(__symbols);
-        let __sym1 = __pop_Variant0(__symbols);
-        let __sym0 = __pop_Variant2(__symbols);
-        let __start = __sym0.0.clone();
-        let __end = __sym6.2.clone();
-        let __nt = super::__action35::<>(__sym0, __sym1, __sym2, __sym3, __sym4, __sym5, __sym6);
-        __symbols.push((__start, __Symbol::Variant2(__nt), __end));
-        (7, 5)
-    }
-    fn __reduce16<
-    >(
-        __lookahead_start: Option<&i64>,
-        __symbols: &mut alloc::vec::Vec<(i64,__Symbol<>,i64)>,
-        _: core::marker::PhantomData<()>,
-    ) -> (usize, usize)
-    {
-        // T = T, "*", "x", "x", "q", "x", "x" => ActionFn(36);
-        assert!(__symbols.len() >= 7);
-        let __sym6 = __pop_Variant0(__symbols);
-        let __sym5 = __pop_Variant0(__symbols);
-        let __sym4 = __pop_Variant0(__symbols);
-        let __sym3 = __pop_Variant0(__symbols);
-        let __sym2 = __pop_Variant0(__symbols);
-        let __sym1 = __pop_Variant0(__symbols);
-        let __sym0 = __pop_Variant2(__symbols);
-        let __start = __sym0.0.clone();
-        let __end = __sym6.2.clone();
-        let __nt = super::__action36::<>(__sym0, __sym1, __sym2, __sym3, __sym4, __sym5, __sym6);
-        __symbols.push((__start, __Symbol::Variant2(__nt), __end));
-        (7, 5)
-    }
-    fn __reduce17<
-    >(
-        __lookahead_start: Option<&i64>,
-        __symbols: &mut alloc::vec::Vec<(i64,__Symbol<>,i64)>,
-        _: core::marker::PhantomData<()>,
-    ) -> (usize, usize)
-    {
-        // T = T, "*", "x", "x", "q", "x", "x", "q" => ActionFn(37);
-        assert!(__symbols.len() >= 8);
-        let __sym7 = __pop_Variant0(__symbols);
-        let __sym6 = __pop_Variant0(__symbols);
-        let __sym5 = __pop_Variant0(__symbols);
-        let __sym4 = __pop_Variant0(__symbols);
-        let __sym3 = __pop_Variant0(__symbols);
-        let __sym2 = __pop_Variant0(__symbols);
-        let __sym1 = __pop_Variant0(__symbols);
-        let __sym0 = __pop_Variant2(__symbols);
-        let __start = __sym0.0.clone();
-        let __end = __sym7.2.clone();
-        let __nt = super::__action37::<>(__sym0, __sym1, __sym2, __sym3, __sym4, __sym5, __sym6, __sym7);
-        __symbols.push((__start, __Symbol::Variant2(__nt), __end));
-        (8, 5)
-    }
-    fn __reduce18<
-    >(
-        __lookahead_start: Option<&i64>,
-        __symbols: &mut alloc::vec::Vec<(i64,__Symbol<>,i64)>,
-        _: core::marker::PhantomData<()>,
-    ) -> (usize, usize)
-    {
-        // T = T, "*", "x", "x", "q", "x", "q", "x" => ActionFn(38);
-        assert!(__symbols.len() >= 8);
-        let __sym7 = __pop_Variant0(__symbols);
-        let __sym6 = __pop_Variant0(__symbols);
-        let __sym5 = __pop_Variant0(__symbols);
-        let __sym4 = __pop_Variant0(__symbols);
-        let __sym3 = __pop_Variant0(__symbols);
-        let __sym2 = __pop_Variant0(__symbols);
-        let __sym1 = __pop_Variant0(__symbols);
-        let __sym0 = __pop_Variant2(__symbols);
-        let __start = __sym0.0.clone();
-        let __end = __sym7.2.clone();
-        let __nt = super::__action38::<>(__sym0, __sym1, __sym2, __sym3, __sym4, __sym5, __sym6, __sym7);
-        __symbols.push((__start, __Symbol::Variant2(__nt), __end));
-        (8, 5)
-    }
-    fn __reduce19<
-    >(
-        __lookahead_start: Option<&i64>,
-        __symbols: &mut alloc::vec::Vec<(i64,__Symbol<>,i64)>,
-        _: core::marker::PhantomData<()>,
-    ) -> (usize, usize)
-    {
-        // T = T, "*", "x", "x", "q", "x", "q", "x", "q" => ActionFn(39);
-        assert!(__symbols.len() >= 9);
-        let __sym8 = __pop_Variant0(__symbols);
-        let __sym7 = __pop_Variant0(__symbols);
-        let __sym6 = __pop_Variant0(__symbols);
-        let __sym5 = __pop_Variant0(__symbols);
-        let __sym4 = __pop_Variant0(__symbols);
-        let __sym3 = __pop_Variant0(__symbols);
-        let __sym2 = __pop_Variant0(__symbols);
-        let __sym1 = __pop_Variant0(__symbols);
-        let __sym0 = __pop_Variant2(__symbols);
-        let __start = __sym0.0.clone();
-        let __end = __sym8.2.clone();
-        let __nt = super::__action39::<>(__sym0, __sym1, __sym2, __sym3, __sym4, __sym5, __sym6, __sym7, __sym8);
-        __symbols.push((__start, __Symbol::Variant2(__nt), __end));
-        (9, 5)
-    }
-    fn __reduce20<
-    >(
-        __lookahead_start: Option<&i64>,
-        __symbols: &mut alloc::vec::Vec<(i64,__Symbol<>,i64)>,
-        _: core::marker::PhantomData<()>,
-    ) -> (usize, usize)
-    {
-        // T = T, "*", "x", "x", "q", "(", E, ")" => ActionFn(40);
-        assert!(__symbols.len() >= 8);
-        let __sym7 = __pop_Variant0(__symbols);
-        let __sym6 = __pop_Variant2(__symbols);
-        let __sym5 = __pop_Variant0(__symbols);
-        let __sym4 = __pop_Variant0(__symbols);
-        let __sym3 = __pop_Variant0(__symbols);
-        let __sym2 = __pop_Variant0(__symbols);
-        let __sym1 = __pop_Variant0(__symbols);
-        let __sym0 = __pop_Variant2(__symbols);
-        let __start = __sym0.0.clone();
-        let __end = __sym7.2.clone();
-        let __nt = super::__action40::<>(__sym0, __sym1, __sym2, __sym3, __sym4, __sym5, __sym6, __sym7);
-        __symbols.push((__start, __Symbol::Variant2(__nt), __end));
-        (8, 5)
-    }
-    fn __reduce21<
-    >(
-        __lookahead_start: Option<&i64>,
-        __symbols: &mut alloc::vec::Vec<(i64,__Symbol<>,i64)>,
-        _: core::marker::PhantomData<()>,
-    ) -> (usize, usize)
-    {
-        // T = T, "*", "x", "q", "x", "x", "x" => ActionFn(41);
-        assert!(__symbols.len() >= 7);
-        let __sym6 = __pop_Variant0(__symbols);
-        let __sym5 = __pop_Variant0(__symbols);
-        let __sym4 = __pop_Variant0(__symbols);
-        let __sym3 = __pop_Variant0(__symbols);
-        let __sym2 = __pop_Variant0(__symbols);
-        let __sym1 = __pop_Variant0(__symbols);
-        let __sym0 = __pop_Variant2(__symbols);
-        let __start = __sym0.0.clone();
-        let __end = __sym6.2.clone();
-        let __nt = super::__action41::<>(__sym0, __sym1, __sym2, __sym3, __sym4, __sym5, __sym6);
-        __symbols.push((__start, __Symbol::Variant2(__nt), __end));
-        (7, 5)
-    }
-    fn __reduce22<
-    >(
-        __lookahead_start: Option<&i64>,
-        __symbols: &mut alloc::vec::Vec<(i64,__Symbol<>,i64)>,
-        _: core::marker::PhantomData<()>,
-    ) -> (usize, usize)
-    {
-        // T = T, "*", "x", "q", "x", "x", "x", "q" => ActionFn(42);
-        assert!(__symbols.len() >= 8);
-        let __sym7 = __pop_Variant0(__symbols);
-        let __sym6 = __pop_Variant0(__symbols);
-        let __sym5 = __pop_Variant0(__symbols);
-        let __sym4 = __pop_Variant0(__symbols);
-        let __sym3 = __pop_Variant0(__symbols);
-        let __sym2 = __pop_Variant0(__symbols);
-        let __sym1 = __pop_Variant0(__symbols);
-        let __sym0 = __pop_Variant2(__symbols);
-        let __start = __sym0.0.clone();
-        let __end = __sym7.2.clone();
-        let __nt = super::__action42::<>(__sym0, __sym1, __sym2, __sym3, __sym4, __sym5, __sym6, __sym7);
-        __symbols.push((__start, __Symbol::Variant2(__nt), __end));
-        (8, 5)
-    }
-    fn __reduce23<
-    >(
-        __lookahead_start: Option<&i64>,
-        __symbols: &mut alloc::vec::Vec<(i64,__Symbol<>,i64)>,
-        _: core::marker::PhantomData<()>,
-    ) -> (usize, usize)
-    {
-        // T = T, "*", "x", "q", "x", "x", "q", "x" => ActionFn(43);
-        assert!(__symbols.len() >= 8);
-        let __sym7 = __pop_Variant0(__symbols);
-        let __sym6 = __pop_Variant0(__symbols);
-        let __sym5 = __pop_Variant0(__symbols);
-        let __sym4 = __pop_Variant0(__symbols);
-        let __sym3 = __pop_Variant0(__symbols);
-        let __sym2 = __pop_Variant0(__symbols);
-        let __sym1 = __pop_Variant0(__symbols);
-        let __sym0 = __pop_Variant2(__symbols);
-        let __start = __sym0.0.clone();
-        let __end = __sym7.2.clone();
-        let __nt = super::__action43::<>(__sym0, __sym1, __sym2, __sym3, __sym4, __sym5, __sym6, __sym7);
-        __symbols.push((__start, __Symbol::Variant2(__nt), __end));
-        (8, 5)
-    }
-    fn __reduce24<
-    >(
-        __lookahead_start: Option<&i64>,
-        __symbols: &mut alloc::vec::Vec<(i64,__Symbol<>,i64)>,
-        _: core::marker::PhantomData<()>,
-    ) -> (usize, usize)
-    {
-        // T = T, "*", "x", "q", "x", "x", "q", "x", "q" => ActionFn(44);
-        assert!(__symbols.len() >= 9);
-        let __sym8 = __pop_Variant0(__symbols);
-        let __sym7 = __pop_Variant0(__symbols);
-        let __sym6 = __pop_Variant0(__symbols);
-        let __sym5 = __pop_Variant0(__symbols);
-        let __sym4 = __pop_Variant0(__symbols);
-        let __sym3 = __pop_Variant0(__symbols);
-        let __sym2 = __pop_Variant0(__symbols);
-        let __sym1 = __pop_Variant0(__symbols);
-        let __sym0 = __pop_Variant2(__symbols);
-        let __start = __sym0.0.clone();
-        let __end = __sym8.2.clone();
-        let __nt = super::__action44::<>(__sym0, __sym1, __sym2, __sym3, __sym4, __sym5, __sym6, __sym7, __sym8);
-        __symbols.push((__start, __Symbol::Variant2(__nt), __end));
-        (9, 5)
-    }
-    fn __reduce25<
-    >(
-        __lookahead_start: Option<&i64>,
-        __symbols: &mut alloc::vec::Vec<(i64,__Symbol<>,i64)>,
-        _: core::marker::PhantomData<()>,
-    ) -> (usize, usize)
-    {
-        // T = T, "*", "x", "q", "x", "(", E, ")" => ActionFn(45);
-        assert!(__symbols.len() >= 8);
-        let __sym7 = __pop_Variant0(__symbols);
-        let __sym6 = __pop_Variant2(__symbols);
-        let __sym5 = __pop_Variant0(__symbols);
-        let __sym4 = __pop_Variant0(__symbols);
-        let __sym3 = __pop_Variant0(__symbols);
-        let __sym2 = __pop_Variant0(__symbols);
-        let __sym1 = __pop_Variant0(__symbols);
-        let __sym0 = __pop_Variant2(__symbols);
-        let __start = __sym0.0.clone();
-        let __end = __sym7.2.clone();
-        let __nt = super::__action45::<>(__sym0, __sym1, __sym2, __sym3, __sym4, __sym5, __sym6, __sym7);
-        __symbols.push((__start, __Symbol::Variant2(__nt), __end));
-        (8, 5)
-    }
-    fn __reduce26<
-    >(
-        __lookahead_start: Option<&i64>,
-        __symbols: &mut alloc::vec::Vec<(i64,__Symbol<>,i64)>,
-        _: core::marker::PhantomData<()>,
-    ) -> (usize, usize)
-    {
-        // T = T, "*", "x", "q", "x", "q", "x", "x" => ActionFn(46);
-        assert!(__symbols.len() >= 8);
-        let __sym7 = __pop_Variant0(__symbols);
-        let __sym6 = __pop_Variant0(__symbols);
-        let __sym5 = __pop_Variant0(__symbols);
-        let __sym4 = __pop_Variant0(__symbols);
-        let __sym3 = __pop_Variant0(__symbols);
-        let __sym2 = __pop_Variant0(__symbols);
-        let __sym1 = __pop_Variant0(__symbols);
-        let __sym0 = __pop_Variant2(__symbols);
-        let __start = __sym0.0.clone();
-        let __end = __sym7.2.clone();
-        let __nt = super::__action46::<>(__sym0, __sym1, __sym2, __sym3, __sym4, __sym5, __sym6, __sym7);
-        __symbols.push((__start, __Symbol::Variant2(__nt), __end));
-        (8, 5)
-    }
-    fn __reduce27<
-    >(
-        __lookahead_start: Option<&i64>,
-        __symbols: &mut alloc::vec::Vec<(i64,__Symbol<>,i64)>,
-        _: core::marker::PhantomData<()>,
-    ) -> (usize, usize)
-    {
-        // T = T, "*", "x", "q", "x", "q", "x", "x", "q" => ActionFn(47);
-        assert!(__symbols.len() >= 9);
-        let __sym8 = __pop_Variant0(__symbols);
-        let __sym7 = __pop_Variant0(__symbols);
-        let __sym6 = __pop_Variant0(__symbols);
-        let __sym5 = __pop_Variant0(__symbols);
-        let __sym4 = __pop_Variant0(__symbols);
-        let __sym3 = __pop_Variant0(__symbols);
-        let __sym2 = __pop_Variant0(__symbols);
-        let __sym1 = __pop_Variant0(__symbols);
-        let __sym0 = __pop_Variant2(__symbols);
-        let __start = __sym0.0.clone();
-        let __end = __sym8.2.clone();
-        let __nt = super::__action47::<>(__sym0, __sym1, __sym2, __sym3, __sym4, __sym5, __sym6, __sym7, __sym8);
-        __symbols.push((__start, __Symbol::Variant2(__nt), __end));
-        (9, 5)
-    }
-    fn __reduce28<
-    >(
-        __lookahead_start: Option<&i64>,
-        __symbols: &mut alloc::vec::Vec<(i64,__Symbol<>,i64)>,
-        _: core::marker::PhantomData<()>,
-    ) -> (usize, usize)
-    {
-        // T = T, "*", "x", "q", "x", "q", "x", "q", "x" => ActionFn(48);
-        assert!(__symbols.len() >= 9);
-        let __sym8 = __pop_Variant0(__symbols);
-        let __sym7 = __pop_Variant0(__symbols);
-        let __sym6 = __pop_Variant0(__symbols);
-        let __sym5 = __pop_Variant0(__symbols);
-        let __sym4 = __pop_Variant0(__symbols);
-        let __sym3 = __pop_Variant0(__symbols);
-        let __sym2 = __pop_Variant0(__symbols);
-        let __sym1 = __pop_Variant0(__symbols);
-        let __sym0 = __pop_Variant2(__symbols);
-        let __start = __sym0.0.clone();
-        let __end = __sym8.2.clone();
-        let __nt = super::__action48::<>(__sym0, __sym1, __sym2, __sym3, __sym4, __sym5, __sym6, __sym7, __sym8);
-        __symbols.push((__start, __Symbol::Variant2(__nt), __end));
-        (9, 5)
-    }
-    fn __reduce29<
-    >(
-        __lookahead_start: Option<&i64>,
-        __symbols: &mut alloc::vec::Vec<(i64,__Symbol<>,i64)>,
-        _: core::marker::PhantomData<()>,
-    ) -> (usize, usize)
-    {
-        // T = T, "*", "x", "q", "x", "q", "x", "q", "x", "q" => ActionFn(49);
-        assert!(__symbols.len() >= 10);
-        let __sym9 = __pop_Variant0(__symbols);
-        let __sym8 = __pop_Variant0(__symbols);
-        let __sym7 = __pop_Variant0(__symbols);
-        let __sym6 = __pop_Variant0(__symbols);
-        let __sym5 = __pop_Variant0(__symbols);
-        let __sym4 = __pop_Variant0(__symbols);
-        let __sym3 = __pop_Variant0(__symbols);
-        let __sym2 = __pop_Variant0(__symbols);
-        let __sym1 = __pop_Variant0(__symbols);
-        let __sym0 = __pop_Variant2(__symbols);
-        let __start = __sym0.0.clone();
-        let __end = __sym9.2.clone();
-        let __nt = super::__action49::<>(__sym0, __sym1, __sym2, __sym3, __sym4, __sym5, __sym6, __sym7, __sym8, __sym9);
-        __symbols.push((__start, __Symbol::Variant2(__nt), __end));
-        (10, 5)
-    }
-    fn __reduce30<
-    >(
-        __lookahead_start: Option<&i64>,
-        __symbols: &mut alloc::vec::Vec<(i64,__Symbol<>,i64)>,
-        _: core::marker::PhantomData<()>,
-    ) -> (usize, usize)
-    {
-        // T = T, "*", "x", "q", "x", "q", "(", E, ")" => ActionFn(50);
-        assert!(__symbols.len() >= 9);
-        let __sym8 = __pop_Variant0(__symbols);
-        let __sym7 = __pop_Variant2(__symbols);
-        let __sym6 = __pop_Variant0(__symbols);
-        let __sym5 = __pop_Variant0(__symbols);
-        let __sym4 = __pop_Variant0(__symbols);
-        let __sym3 = __pop_Variant0(__symbols);
-        let __sym2 = __pop_Variant0(__symbols);
-        let __sym1 = __pop_Variant0(__symbols);
-        let __sym0 = __pop_Variant2(__symbols);
-        let __start = __sym0.0.clone();
-        let __end = __sym8.2.clone();
-        let __nt = super::__action50::<>(__sym0, __sym1, __sym2, __sym3, __sym4, __sym5, __sym6, __sym7, __sym8);
-        __symbols.push((__start, __Symbol::Variant2(__nt), __end));
-        (9, 5)
-    }
-    fn __reduce31<
-    >(
-        __lookahead_start: Option<&i64>,
-        __symbols: &mut alloc::vec::Vec<(i64,__Symbol<>,i64)>,
-        _: core::marker::PhantomData<()>,
-    ) -> (usize, usize)
-    {
-        // T = T, "*", "(", E, ")", "x", "x" => ActionFn(51);
-        assert!(__symbols.len() >= 7);
-        let __sym6 = __pop_Variant0(__symbols);
-        let __sym5 = __pop_Variant0(__symbols);
-        let __sym4 = __pop_Variant0(__symbols);
-        let __sym3 = __pop_Variant2(__symbols);
-        let __sym2 = __pop_Variant0(__symbols);
-        let __sym1 = __pop_Variant0(__symbols);
-        let __sym0 = __pop_Variant2(__symbols);
-        let __start = __sym0.0.clone();
-        let __end = __sym6.2.clone();
-        let __nt = super::__action51::<>(__sym0, __sym1, __sym2, __sym3, __sym4, __sym5, __sym6);
-        __symbols.push((__start, __Symbol::Variant2(__nt), __end));
-        (7, 5)
-    }
-    fn __reduce32<
-    >(
-        __lookahead_start: Option<&i64>,
-        __symbols: &mut alloc::vec::Vec<(i64,__Symbol<>,i64)>,
-        _: core::marker::PhantomData<()>,
-    ) -> (usize, usize)
-    {
-        // T = T, "*", "(", E, ")", "x", "x", "q" => ActionFn(52);
-        assert!(__symbols.len() >= 8);
-        let __sym7 = __pop_Variant0(__symbols);
-        let __sym6 = __pop_Variant0(__symbols);
-        let __sym5 = __pop_Variant0(__symbols);
-        let __sym4 = __pop_Variant0(__symbols);
-        let __sym3 = __pop_Variant2(__symbols);
-        let __sym2 = __pop_Variant0(__symbols);
-        let __sym1 = __pop_Variant0(__symbols);
-        let __sym0 = __pop_Variant2(__symbols);
-        let __start = __sym0.0.clone();
-        let __end = __sym7.2.clone();
-        let __nt = super::__action52::<>(__sym0, __sym1, __sym2, __sym3, __sym4, __sym5, __sym6, __sym7);
-        __symbols.push((__start, __Symbol::Variant2(__nt), __end));
-        (8, 5)
-    }
-    fn __reduce33<
-    >(
-        __lookahead_start: Option<&i64>,
-        __symbols: &mut alloc::vec::Vec<(i64,__Symbol<>,i64)>,
-        _: core::marker::PhantomData<()>,
-    ) -> (usize, usize)
-    {
-        // T = T, "*", "(", E, ")", "x", "q", "x" => ActionFn(53);
-        assert!(__symbols.len() >= 8);
-        let __sym7 = __pop_Variant0(__symbols);
-        let __sym6 = __pop_Variant0(__symbols);
-        let __sym5 = __pop_Variant0(__symbols);
-        let __sym4 = __pop_Variant0(__symbols);
-        let __sym3 = __pop_Variant2(__symbols);
-        let __sym2 = __pop_Variant0(__symbols);
-        let __sym1 = __pop_Variant0(__symbols);
-        let __sym0 = __pop_Variant2(__symbols);
-        let __start = __sym0.0.clone();
-        let __end = __sym7.2.clone();
-        let __nt = super::__action53::<>(__sym0, __sym1, __sym2, __sym3, __sym4, __sym5, __sym6, __sym7);
-        __symbols.push((__start, __Symbol::Variant2(__nt), __end));
-        (8, 5)
-    }
-    fn __reduce34<
-    >(
-        __lookahead_start: Option<&i64>,
-        __symbols: &mut alloc::vec::Vec<(i64,__Symbol<>,i64)>,
-        _: core::marker::PhantomData<()>,
-    ) -> (usize, usize)
-    {
-        // T = T, "*", "(", E, ")", "x", "q", "x", "q" => ActionFn(54);
-        assert!(__symbols.len() >= 9);
-        let __sym8 = __pop_Variant0(__symbols);
-        let __sym7 = __pop_Variant0(__symbols);
-        let __sym6 = __pop_Variant0(__symbols);
-        let __sym5 = __pop_Variant0(__symbols);
-        let __sym4 = __pop_Variant0(__symbols);
-        let __sym3 = __pop_Variant2(__symbols);
-        let __sym2 = __pop_Variant0(__symbols);
-        let __sym1 = __pop_Variant0(__symbols);
-        let __sym0 = __pop_Variant2(__symbols);
-        let __start = __sym0.0.clone();
-        let __end = __sym8.2.clone();
-        let __nt = super::__action54::<>(__sym0, __sym1, __sym2, __sym3, __sym4, __sym5, __sym6, __sym7, __sym8);
-        __symbols.push((__start, __Symbol::Variant2(__nt), __end));
-        (9, 5)
-    }
-    fn __reduce35<
-    >(
-        __lookahead_start: Option<&i64>,
-        __symbols: &mut alloc::vec::Vec<(i64,__Symbol<>,i64)>,
-        _: core::marker::PhantomData<()>,
-    ) -> (usize, usize)
-    {
-        // T = T, "*", "(", E, ")", "(", E, ")" => ActionFn(55);
-        assert!(__symbols.len() >= 8);
-        let __sym7 = __pop_Variant0(__symbols);
-        let __sym6 = __pop_Variant2(__symbols);
-        let __sym5 = __pop_Variant0(__symbols);
-        let __sym4 = __pop_Variant0(__symbols);
-        let __sym3 = __pop_Variant2(__symbols);
-        let __sym2 = __pop_Variant0(__symbols);
-        let __sym1 = __pop_Variant0(__symbols);
-        let __sym0 = __pop_Variant2(__symbols);
-        let __start = __sym0.0.clone();
-        let __end = __sym7.2.clone();
-        let __nt = super::__action55::<>(__sym0, __sym1, __sym2, __sym3, __sym4, __sym5, __sym6, __sym7);
-        __symbols.push((__start, __Symbol::Variant2(__nt), __end));
-        (8, 5)
-    }
-    fn __reduce36<
-    >(
-        __lookahead_start: Option<&i64>,
-        __symbols: &mut alloc::vec::Vec<(i64,__Symbol<>,i64)>,
-        _: core::marker::PhantomData<()>,
-    ) -> (usize, usize)
-    {
-        // T = "x", "x" => ActionFn(56);
-        assert!(__symbols.len() >= 2);
-        let __sym1 = __pop_Variant0(__symbols);
-        let __sym0 = __pop_Variant0(__symbols);
-        let __start = __sym0.0.clone();
-        let __end = __sym1.2.clone();
-        let __nt = super::__action56::<>(__sym0, __sym1);
-        __symbols.push((__start, __Symbol::Variant2(__nt), __end));
-        (2, 5)
-    }
-    fn __reduce37<
-    >(
-        __lookahead_start: Option<&i64>,
-        __symbols: &mut alloc::vec::Vec<(i64,__Symbol<>,i64)>,
-        _: core::marker::PhantomData<()>,
-    ) -> (usize, usize)
-    {
-        // T = "x", "x", "q" => ActionFn(57);
+        // S = S, "one", "z" => ActionFn(24);
         assert!(__symbols.len() >= 3);
         let __sym2 = __pop_Variant0(__symbols);
         let __sym1 = __pop_Variant0(__symbols);
-        let __sym0 = __pop_Variant0(__symbols);
+        let __sym0 = __pop_Variant2(__symbols);
         let __start = __sym0.0.clone();
         let __end = __sym2.2.clone();
-        let __nt = super::__action57::<>(__sym0, __sym1, __sym2);
+        let __nt = super::__action24::<>(__sym0, __sym1, __sym2);
         __symbols.push((__start, __Symbol::Variant2(__nt), __end));
-        (3, 5)
-    }
-    fn __reduce38<
-    >(
-        __lookahead_start: Option<&i64>,
-        __symbols: &mut alloc::vec::Vec<(i64,__Symbol<>,i64)>,
-        _: core::marker::PhantomData<()>,
-    ) -> (usize, usize)
-    {
-        // T = "x", "q", "x" => ActionFn(58);
-        assert!(__symbols.len() >= 3);
-        let __sym2 = __pop_Variant0(__symbols);
-        let __sym1 = __pop_Variant0(__symbols);
-        let __sym0 = __pop_Variant0(__symbols);
-        let __start = __sym0.0.clone();
-        let __end = __sym2.2.clone();
-        let __nt = super::__action58::<>(__sym0, __sym1, __sym2);
-        __symbols.push((__start, __Symbol::Variant2(__nt), __end));
-        (3, 5)
-    }
-    fn __reduce39<
-    >(
-        __lookahead_start: Option<&i64>,
-        __symbols: &mut alloc::vec::Vec<(i64,__Symbol<>,i64)>,
-        _: core::marker::PhantomData<()>,
-    ) -> (usize, usize)
-    {
-        // T = "x", "q", "x", "q" => ActionFn(59);
-        assert!(__symbols.len() >= 4);
-        let __sym3 = __pop_Variant0(__symbols);
-        let __sym2 = __pop_Variant0(__symbols);
-        let __sym1 = __pop_Variant0(__symbols);
-        let __sym0 = __pop_Variant0(__symbols);
-        let __start = __sym0.0.clone();
-        let __end = __sym3.2.clone();
-        let __nt = super::__action59::<>(__sym0, __sym1, __sym2, __sym3);
-        __symbols.push((__start, __Symbol::Variant2(__nt), __end));
-        (4, 5)
-    }
-    fn __reduce40<
-    >(
-        __lookahead_start: Option<&i64>,
-        __symbols: &mut alloc::vec::Vec<(i64,__Symbol<>,i64)>,
-        _: core::marker::PhantomData<()>,
-    ) -> (usize, usize)
-    {
-        // T = "(", E, ")" => ActionFn(60);
-        assert!(__symbols.len() >= 3);
-        let __sym2 = __pop_Variant0(__symbols);
-        let __sym1 = __pop_Variant2(__symbols);
-        let __sym0 = __pop_Variant0(__symbols);
-        let __start = __sym0.0.clone();
-        let __end = __sym2.2.clone();
-        let __nt = super::__action60::<>(__sym0, __sym1, __sym2);
-        __symbols.push((__start, __Symbol::Variant2(__nt), __end));
-        (3, 5)
+        (3, 3)
     }
 }
 #[allow(unused_imports)]
-pub use self::__parse__E::EParser;
+pub use self::__parse__S::SParser;
 
 #[allow(clippy::too_many_arguments, clippy::needless_lifetimes, clippy::just_underscores_and_digits, clippy::extra_unused_type_parameters)]
 fn __action0<
@@ -1860,12 +784,13 @@ fn __action1<
 >(
     (_, l, _): (i64, i64, i64),
     (_, c0, _): (i64, Tree, i64),
-    (_, c1, _): (i64, Tok, i64),
+    (_, c1, _): (i64, Tree, i64),
     (_, c2, _): (i64, Tree, i64),
+    (_, c3, _): (i64, Tok, i64),
     (_, r, _): (i64, i64, i64),
 ) -> Tree
 {
-    node("E#0", l, r, vec![Tree::from(c0), Tree::from(c1), Tree::from(c2)])
+    node("S#0", l, r, vec![Tree::from(c0), Tree::from(c1), Tree::from(c2), Tree::from(c3)])
 }
 
 #[allow(clippy::too_many_arguments, clippy::needless_lifetimes, clippy::just_underscores_and_digits, clippy::extra_unused_type_parameters)]
@@ -1873,87 +798,38 @@ fn __action2<
 >(
     (_, l, _): (i64, i64, i64),
     (_, c0, _): (i64, Tree, i64),
+    (_, c1, _): (i64, Tree, i64),
+    (_, c2, _): (i64, Tok, i64),
     (_, r, _): (i64, i64, i64),
 ) -> Tree
 {
-    node("E#1", l, r, vec![Tree::from(c0)])
+    node("S#1", l, r, vec![Tree::from(c0), Tree::from(c1), Tree::from(c2)])
 }
 
 #[allow(clippy::too_many_arguments, clippy::needless_lifetimes, clippy::just_underscores_and_digits, clippy::extra_unused_type_parameters)]
 fn __action3<
 >(
     (_, l, _): (i64, i64, i64),
-    (_, c0, _): (i64, Tree, i64),
-    (_, c1, _): (i64, Tok, i64),
-    (_, c2, _): (i64, Tree, i64),
-    (_, c3, _): (i64, Tree, i64),
+    (_, c0, _): (i64, Tok, i64),
     (_, r, _): (i64, i64, i64),
-) -> Tree
+) -> Result<Tree,__lalrpop_util::ParseError<i64,Tok,u64>>
 {
-    node("T#0", l, r, vec![Tree::from(c0), Tree::from(c1), Tree::from(c2), Tree::from(c3)])
+    fallible("J#0", l, r, vec![Tree::from(c0)])
 }
 
 #[allow(clippy::too_many_arguments, clippy::needless_lifetimes, clippy::just_underscores_and_digits, clippy::extra_unused_type_parameters)]
 fn __action4<
 >(
     (_, l, _): (i64, i64, i64),
-    (_, c0, _): (i64, Tree, i64),
-    (_, r, _): (i64, i64, i64),
-) -> Tree
-{
-    node("T#1", l, r, vec![Tree::from(c0)])
-}
-
-#[allow(clippy::too_many_arguments, clippy::needless_lifetimes, clippy::just_underscores_and_digits, clippy::extra_unused_type_parameters)]
-fn __action5<
->(
-    (_, l, _): (i64, i64, i64),
-    (_, c0, _): (i64, Tree, i64),
-    (_, c1, _): (i64, Tree, i64),
-    (_, r, _): (i64, i64, i64),
-) -> Tree
-{
-    node("F#0", l, r, vec![Tree::from(c0), Tree::from(c1)])
-}
-
-#[allow(clippy::too_many_arguments, clippy::needless_lifetimes, clippy::just_underscores_and_digits, clippy::extra_unused_type_parameters)]
-fn __action6<
->(
-    (_, l, _): (i64, i64, i64),
-    (_, c0, _): (i64, Tok, i64),
-    (_, c1, _): (i64, Tree, i64),
-    (_, c2, _): (i64, Tok, i64),
-    (_, r, _): (i64, i64, i64),
-) -> Tree
-{
-    node("F#1", l, r, vec![Tree::from(c0), Tree::from(c1), Tree::from(c2)])
-}
-
-#[allow(clippy::too_many_arguments, clippy::needless_lifetimes, clippy::just_underscores_and_digits, clippy::extra_unused_type_parameters)]
-fn __action7<
->(
-    (_, l, _): (i64, i64, i64),
     (_, c0, _): (i64, Tok, i64),
     (_, r, _): (i64, i64, i64),
 ) -> Tree
 {
-    node("A#0", l, r, vec![Tree::from(c0)])
-}
-
-#[allow(clippy::too_many_arguments, clippy::needless_lifetimes, clippy::just_underscores_and_digits, clippy::extra_unused_type_parameters)]
-fn __action8<
->(
-    (_, l, _): (i64, i64, i64),
-    (_, c0, _): (i64, Tok, i64),
-    (_, c1, _): (i64, Tok, i64),
-    (_, r, _): (i64, i64, i64),
-) -> Tree
-{
-    node("A#1", l, r, vec![Tree::from(c0), Tree::from(c1)])
+    node("J#1", l, r, vec![Tree::from(c0)])
 }
 
 #[allow(clippy::needless_lifetimes, clippy::clone_on_copy)]
-fn __action9<
+fn __action5<
 >(
     __lookbehind: &i64,
     __lookahead: &i64,
@@ -1963,7 +839,7 @@ fn __action9<
 }
 
 #[allow(clippy::needless_lifetimes, clippy::clone_on_copy)]
-fn __action10<
+fn __action6<
 >(
     __lookbehind: &i64,
     __lookahead: &i64,
@@ -1974,162 +850,15 @@ fn __action10<
 
 #[allow(clippy::too_many_arguments, clippy::needless_lifetimes,
     clippy::just_underscores_and_digits, clippy::clone_on_copy, clippy::unit_arg)]
-fn __action11<
+fn __action7<
 >(
     __0: (i64, Tok, i64),
     __1: (i64, i64, i64),
-) -> Tree
+) -> Result<Tree,__lalrpop_util::ParseError<i64,Tok,u64>>
 {
     let __start0 = __0.0.clone();
     let __end0 = __0.0.clone();
-    let __temp0 = __action10(
-        &__start0,
-        &__end0,
-    );
-    let __temp0 = (__start0, __temp0, __end0);
-    __action7(
-        __temp0,
-        __0,
-        __1,
-    )
-}
-
-#[allow(clippy::too_many_arguments, clippy::needless_lifetimes,
-    clippy::just_underscores_and_digits, clippy::clone_on_copy, clippy::unit_arg)]
-fn __action12<
->(
-    __0: (i64, Tok, i64),
-    __1: (i64, Tok, i64),
-    __2: (i64, i64, i64),
-) -> Tree
-{
-    let __start0 = __0.0.clone();
-    let __end0 = __0.0.clone();
-    let __temp0 = __action10(
-        &__start0,
-        &__end0,
-    );
-    let __temp0 = (__start0, __temp0, __end0);
-    __action8(
-        __temp0,
-        __0,
-        __1,
-        __2,
-    )
-}
-
-#[allow(clippy::too_many_arguments, clippy::needless_lifetimes,
-    clippy::just_underscores_and_digits, clippy::clone_on_copy, clippy::unit_arg)]
-fn __action13<
->(
-    __0: (i64, Tree, i64),
-    __1: (i64, Tok, i64),
-    __2: (i64, Tree, i64),
-    __3: (i64, i64, i64),
-) -> Tree
-{
-    let __start0 = __0.0.clone();
-    let __end0 = __0.0.clone();
-    let __temp0 = __action10(
-        &__start0,
-        &__end0,
-    );
-    let __temp0 = (__start0, __temp0, __end0);
-    __action1(
-        __temp0,
-        __0,
-        __1,
-        __2,
-        __3,
-    )
-}
-
-#[allow(clippy::too_many_arguments, clippy::needless_lifetimes,
-    clippy::just_underscores_and_digits, clippy::clone_on_copy, clippy::unit_arg)]
-fn __action14<
->(
-    __0: (i64, Tree, i64),
-    __1: (i64, i64, i64),
-) -> Tree
-{
-    let __start0 = __0.0.clone();
-    let __end0 = __0.0.clone();
-    let __temp0 = __action10(
-        &__start0,
-        &__end0,
-    );
-    let __temp0 = (__start0, __temp0, __end0);
-    __action2(
-        __temp0,
-        __0,
-        __1,
-    )
-}
-
-#[allow(clippy::too_many_arguments, clippy::needless_lifetimes,
-    clippy::just_underscores_and_digits, clippy::clone_on_copy, clippy::unit_arg)]
-fn __action15<
->(
-    __0: (i64, Tree, i64),
-    __1: (i64, Tree, i64),
-    __2: (i64, i64, i64),
-) -> Tree
-{
-    let __start0 = __0.0.clone();
-    let __end0 = __0.0.clone();
-    let __temp0 = __action10(
-        &__start0,
-        &__end0,
-    );
-    let __temp0 = (__start0, __temp0, __end0);
-    __action5(
-        __temp0,
-        __0,
-        __1,
-        __2,
-    )
-}
-
-#[allow(clippy::too_many_arguments, clippy::needless_lifetimes,
-    clippy::just_underscores_and_digits, clippy::clone_on_copy, clippy::unit_arg)]
-fn __action16<
->(
-    __0: (i64, Tok, i64),
-    __1: (i64, Tree, i64),
-    __2: (i64, Tok, i64),
-    __3: (i64, i64, i64),
-) -> Tree
-{
-    let __start0 = __0.0.clone();
-    let __end0 = __0.0.clone();
-    let __temp0 = __action10(
-        &__start0,
-        &__end0,
-    );
-    let __temp0 = (__start0, __temp0, __end0);
-    __action6(
-        __temp0,
-        __0,
-        __1,
-        __2,
-        __3,
-    )
-}
-
-#[allow(clippy::too_many_arguments, clippy::needless_lifetimes,
-    clippy::just_underscores_and_digits, clippy::clone_on_copy, clippy::unit_arg)]
-fn __action17<
->(
-    __0: (i64, Tree, i64),
-    __1: (i64, Tok, i64),
-    __2: (i64, Tree, i64),
-    __3: (i64, Tree, i64),
-    __4: (i64, i64, i64),
-) -> Tree
-{
-    let __start0 = __0.0.clone();
-    let __end0 = __0.0.clone();
-    let __temp0 = __action10(
+    let __temp0 = __action6(
         &__start0,
         &__end0,
     );
@@ -2138,23 +867,20 @@ fn __action17<
         __temp0,
         __0,
         __1,
-        __2,
-        __3,
-        __4,
     )
 }
 
 #[allow(clippy::too_many_arguments, clippy::needless_lifetimes,
     clippy::just_underscores_and_digits, clippy::clone_on_copy, clippy::unit_arg)]
-fn __action18<
+fn __action8<
 >(
-    __0: (i64, Tree, i64),
+    __0: (i64, Tok, i64),
     __1: (i64, i64, i64),
 ) -> Tree
 {
     let __start0 = __0.0.clone();
     let __end0 = __0.0.clone();
-    let __temp0 = __action10(
+    let __temp0 = __action6(
         &__start0,
         &__end0,
     );
@@ -2168,22 +894,326 @@ fn __action18<
 
 #[allow(clippy::too_many_arguments, clippy::needless_lifetimes,
     clippy::just_underscores_and_digits, clippy::clone_on_copy, clippy::unit_arg)]
-fn __action19<
+fn __action9<
+>(
+    __0: (i64, Tree, i64),
+    __1: (i64, Tree, i64),
+    __2: (i64, Tree, i64),
+    __3: (i64, Tok, i64),
+    __4: (i64, i64, i64),
+) -> Tree
+{
+    let __start0 = __0.0.clone();
+    let __end0 = __0.0.clone();
+    let __temp0 = __action6(
+        &__start0,
+        &__end0,
+    );
+    let __temp0 = (__start0, __temp0, __end0);
+    __action1(
+        __temp0,
+        __0,
+        __1,
+        __2,
+        __3,
+        __4,
+    )
+}
+
+#[allow(clippy::too_many_arguments, clippy::needless_lifetimes,
+    clippy::just_underscores_and_digits, clippy::clone_on_copy, clippy::unit_arg)]
+fn __action10<
+>(
+    __0: (i64, Tree, i64),
+    __1: (i64, Tree, i64),
+    __2: (i64, Tok, i64),
+    __3: (i64, i64, i64),
+) -> Tree
+{
+    let __start0 = __0.0.clone();
+    let __end0 = __0.0.clone();
+    let __temp0 = __action6(
+        &__start0,
+        &__end0,
+    );
+    let __temp0 = (__start0, __temp0, __end0);
+    __action2(
+        __temp0,
+        __0,
+        __1,
+        __2,
+        __3,
+    )
+}
+
+#[allow(clippy::too_many_arguments, clippy::needless_lifetimes,
+    clippy::just_underscores_and_digits, clippy::clone_on_copy, clippy::unit_arg)]
+fn __action11<
+>(
+    __0: (i64, Tok, i64),
+) -> Result<Tree,__lalrpop_util::ParseError<i64,Tok,u64>>
+{
+    let __start0 = __0.2.clone();
+    let __end0 = __0.2.clone();
+    let __temp0 = __action5(
+        &__start0,
+        &__end0,
+    );
+    let __temp0 = (__start0, __temp0, __end0);
+    __action7(
+        __0,
+        __temp0,
+    )
+}
+
+#[allow(clippy::too_many_arguments, clippy::needless_lifetimes,
+    clippy::just_underscores_and_digits, clippy::clone_on_copy, clippy::unit_arg)]
+fn __action12<
 >(
     __0: (i64, Tok, i64),
 ) -> Tree
 {
     let __start0 = __0.2.clone();
     let __end0 = __0.2.clone();
-    let __temp0 = __action9(
+    let __temp0 = __action5(
         &__start0,
         &__end0,
     );
     let __temp0 = (__start0, __temp0, __end0);
-    __action11(
+    __action8(
         __0,
         __temp0,
     )
+}
+
+#[allow(clippy::too_many_arguments, clippy::needless_lifetimes,
+    clippy::just_underscores_and_digits, clippy::clone_on_copy, clippy::unit_arg)]
+fn __action13<
+>(
+    __0: (i64, Tree, i64),
+    __1: (i64, Tree, i64),
+    __2: (i64, Tree, i64),
+    __3: (i64, Tok, i64),
+) -> Tree
+{
+    let __start0 = __3.2.clone();
+    let __end0 = __3.2.clone();
+    let __temp0 = __action5(
+        &__start0,
+        &__end0,
+    );
+    let __temp0 = (__start0, __temp0, __end0);
+    __action9(
+        __0,
+        __1,
+        __2,
+        __3,
+        __temp0,
+    )
+}
+
+#[allow(clippy::too_many_arguments, clippy::needless_lifetimes,
+    clippy::just_underscores_and_digits, clippy::clone_on_copy, clippy::unit_arg)]
+fn __action14<
+>(
+    __0: (i64, Tree, i64),
+    __1: (i64, Tree, i64),
+    __2: (i64, Tok, i64),
+) -> Tree
+{
+    let __start0 = __2.2.clone();
+    let __end0 = __2.2.clone();
+    let __temp0 = __action5(
+        &__start0,
+        &__end0,
+    );
+    let __temp0 = (__start0, __temp0, __end0);
+    __action10(
+        __0,
+        __1,
+        __2,
+        __temp0,
+    )
+}
+
+#[allow(clippy::too_many_arguments, clippy::needless_lifetimes,
+    clippy::just_underscores_and_digits, clippy::clone_on_copy, clippy::unit_arg)]
+fn __action15<
+>(
+    __0: (i64, Tok, i64),
+    __1: (i64, Tok, i64),
+    __2: (i64, Tok, i64),
+    __3: (i64, Tok, i64),
+) -> Result<Tree,__lalrpop_util::ParseError<i64,Tok,u64>>
+{
+    let __start0 = __0.0.clone();
+    let __end0 = __0.2.clone();
+    let __start1 = __1.0.clone();
+    let __end1 = __1.2.clone();
+    let __start2 = __2.0.clone();
+    let __end2 = __2.2.clone();
+    let __temp0 = __action11(
+        __0,
+    )?;
+    let __temp0 = (__start0, __temp0, __end0);
+    let __temp1 = __action11(
+        __1,
+    )?;
+    let __temp1 = (__start1, __temp1, __end1);
+    let __temp2 = __action11(
+        __2,
+    )?;
+    let __temp2 = (__start2, __temp2, __end2);
+    Ok(__action13(
+        __temp0,
+        __temp1,
+        __temp2,
+        __3,
+    ))
+}
+
+#[allow(clippy::too_many_arguments, clippy::needless_lifetimes,
+    clippy::just_underscores_and_digits, clippy::clone_on_copy, clippy::unit_arg)]
+fn __action16<
+>(
+    __0: (i64, Tok, i64),
+    __1: (i64, Tok, i64),
+    __2: (i64, Tok, i64),
+    __3: (i64, Tok, i64),
+) -> Result<Tree,__lalrpop_util::ParseError<i64,Tok,u64>>
+{
+    let __start0 = __0.0.clone();
+    let __end0 = __0.2.clone();
+    let __start1 = __1.0.clone();
+    let __end1 = __1.2.clone();
+    let __start2 = __2.0.clone();
+    let __end2 = __2.2.clone();
+    let __temp0 = __action11(
+        __0,
+    )?;
+    let __temp0 = (__start0, __temp0, __end0);
+    let __temp1 = __action11(
+        __1,
+    )?;
+    let __temp1 = (__start1, __temp1, __end1);
+    let __temp2 = __action12(
+        __2,
+    );
+    let __temp2 = (__start2, __temp2, __end2);
+    Ok(__action13(
+        __temp0,
+        __temp1,
+        __temp2,
+        __3,
+    ))
+}
+
+#[allow(clippy::too_many_arguments, clippy::needless_lifetimes,
+    clippy::just_underscores_and_digits, clippy::clone_on_copy, clippy::unit_arg)]
+fn __action17<
+>(
+    __0: (i64, Tok, i64),
+    __1: (i64, Tok, i64),
+    __2: (i64, Tok, i64),
+    __3: (i64, Tok, i64),
+) -> Result<Tree,__lalrpop_util::ParseError<i64,Tok,u64>>
+{
+    let __start0 = __0.0.clone();
+    let __end0 = __0.2.clone();
+    let __start1 = __1.0.clone();
+    let __end1 = __1.2.clone();
+    let __start2 = __2.0.clone();
+    let __end2 = __2.2.clone();
+    let __temp0 = __action11(
+        __0,
+    )?;
+    let __temp0 = (__start0, __temp0, __end0);
+    let __temp1 = __action12(
+        __1,
+    );
+    let __temp1 = (__start1, __temp1, __end1);
+    let __temp2 = __action11(
+        __2,
+    )?;
+    let __temp2 = (__start2, __temp2, __end2);
+    Ok(__action13(
+        __temp0,
+        __temp1,
+        __temp2,
+        __3,
+    ))
+}
+
+#[allow(clippy::too_many_arguments, clippy::needless_lifetimes,
+    clippy::just_underscores_and_digits, clippy::clone_on_copy, clippy::unit_arg)]
+fn __action18<
+>(
+    __0: (i64, Tok, i64),
+    __1: (i64, Tok, i64),
+    __2: (i64, Tok, i64),
+    __3: (i64, Tok, i64),
+) -> Tree
+{
+    let __start0 = __0.0.clone();
+    let __end0 = __0.2.clone();
+    let __start1 = __1.0.clone();
+    let __end1 = __1.2.clone();
+    let __start2 = __2.0.clone();
+    let __end2 = __2.2.clone();
+    let __temp0 = __action11(
+        __0,
+    )?;
+    let __temp0 = (__start0, __temp0, __end0);
+    let __temp1 = __action12(
+        __1,
+    );
+    let __temp1 = (__start1, __temp1, __end1);
+    let __temp2 = __action12(
+        __2,
+    );
+    let __temp2 = (__start2, __temp2, __end2);
+    __action13(
+        __temp0,
+        __temp1,
+        __temp2,
+        __3,
+    )
+}
+
+#[allow(clippy::too_many_arguments, clippy::needless_lifetimes,
+    clippy::just_underscores_and_digits, clippy::clone_on_copy, clippy::unit_arg)]
+fn __action19<
+>(
+    __0: (i64, Tok, i64),
+    __1: (i64, Tok, i64),
+    __2: (i64, Tok, i64),
+    __3: (i64, Tok, i64),
+) -> Result<Tree,__lalrpop_util::ParseError<i64,Tok,u64>>
+{
+    let __start0 = __0.0.clone();
+    let __end0 = __0.2.clone();
+    let __start1 = __1.0.clone();
+    let __end1 = __1.2.clone();
+    let __start2 = __2.0.clone();
+    let __end2 = __2.2.clone();
+    let __temp0 = __action12(
+        __0,
+    );
+    let __temp0 = (__start0, __temp0, __end0);
+    let __temp1 = __action11(
+        __1,
+    )?;
+    let __temp1 = (__start1, __temp1, __end1);
+    let __temp2 = __action11(
+        __2,
+    )?;
+    let __temp2 = (__start2, __temp2, __end2);
+    Ok(__action13(
+        __temp0,
+        __temp1,
+        __temp2,
+        __3,
+    ))
 }
 
 #[allow(clippy::too_many_arguments, clippy::needless_lifetimes,
@@ -2192,63 +1222,105 @@ fn __action20<
 >(
     __0: (i64, Tok, i64),
     __1: (i64, Tok, i64),
-) -> Tree
+    __2: (i64, Tok, i64),
+    __3: (i64, Tok, i64),
+) -> Result<Tree,__lalrpop_util::ParseError<i64,Tok,u64>>
 {
-    let __start0 = __1.2.clone();
-    let __end0 = __1.2.clone();
-    let __temp0 = __action9(
-        &__start0,
-        &__end0,
+    let __start0 = __0.0.clone();
+    let __end0 = __0.2.clone();
+    let __start1 = __1.0.clone();
+    let __end1 = __1.2.clone();
+    let __start2 = __2.0.clone();
+    let __end2 = __2.2.clone();
+    let __temp0 = __action12(
+        __0,
     );
     let __temp0 = (__start0, __temp0, __end0);
-    __action12(
-        __0,
+    let __temp1 = __action11(
         __1,
+    )?;
+    let __temp1 = (__start1, __temp1, __end1);
+    let __temp2 = __action12(
+        __2,
+    );
+    let __temp2 = (__start2, __temp2, __end2);
+    Ok(__action13(
         __temp0,
-    )
+        __temp1,
+        __temp2,
+        __3,
+    ))
 }
 
 #[allow(clippy::too_many_arguments, clippy::needless_lifetimes,
     clippy::just_underscores_and_digits, clippy::clone_on_copy, clippy::unit_arg)]
 fn __action21<
 >(
-    __0: (i64, Tree, i64),
+    __0: (i64, Tok, i64),
     __1: (i64, Tok, i64),
-    __2: (i64, Tree, i64),
-) -> Tree
+    __2: (i64, Tok, i64),
+    __3: (i64, Tok, i64),
+) -> Result<Tree,__lalrpop_util::ParseError<i64,Tok,u64>>
 {
-    let __start0 = __2.2.clone();
-    let __end0 = __2.2.clone();
-    let __temp0 = __action9(
-        &__start0,
-        &__end0,
+    let __start0 = __0.0.clone();
+    let __end0 = __0.2.clone();
+    let __start1 = __1.0.clone();
+    let __end1 = __1.2.clone();
+    let __start2 = __2.0.clone();
+    let __end2 = __2.2.clone();
+    let __temp0 = __action12(
+        __0,
     );
     let __temp0 = (__start0, __temp0, __end0);
-    __action13(
-        __0,
+    let __temp1 = __action12(
         __1,
+    );
+    let __temp1 = (__start1, __temp1, __end1);
+    let __temp2 = __action11(
         __2,
+    )?;
+    let __temp2 = (__start2, __temp2, __end2);
+    Ok(__action13(
         __temp0,
-    )
+        __temp1,
+        __temp2,
+        __3,
+    ))
 }
 
 #[allow(clippy::too_many_arguments, clippy::needless_lifetimes,
     clippy::just_underscores_and_digits, clippy::clone_on_copy, clippy::unit_arg)]
 fn __action22<
 >(
-    __0: (i64, Tree, i64),
+    __0: (i64, Tok, i64),
+    __1: (i64, Tok, i64),
+    __2: (i64, Tok, i64),
+    __3: (i64, Tok, i64),
 ) -> Tree
 {
-    let __start0 = __0.2.clone();
+    let __start0 = __0.0.clone();
     let __end0 = __0.2.clone();
-    let __temp0 = __action9(
-        &__start0,
-        &__end0,
+    let __start1 = __1.0.clone();
+    let __end1 = __1.2.clone();
+    let __start2 = __2.0.clone();
+    let __end2 = __2.2.clone();
+    let __temp0 = __action12(
+        __0,
     );
     let __temp0 = (__start0, __temp0, __end0);
-    __action14(
-        __0,
+    let __temp1 = __action12(
+        __1,
+    );
+    let __temp1 = (__start1, __temp1, __end1);
+    let __temp2 = __action12(
+        __2,
+    );
+    let __temp2 = (__start2, __temp2, __end2);
+    __action13(
         __temp0,
+        __temp1,
+        __temp2,
+        __3,
     )
 }
 
@@ -2257,1262 +1329,42 @@ fn __action22<
 fn __action23<
 >(
     __0: (i64, Tree, i64),
-    __1: (i64, Tree, i64),
-) -> Tree
+    __1: (i64, Tok, i64),
+    __2: (i64, Tok, i64),
+) -> Result<Tree,__lalrpop_util::ParseError<i64,Tok,u64>>
 {
-    let __start0 = __1.2.clone();
+    let __start0 = __1.0.clone();
     let __end0 = __1.2.clone();
-    let __temp0 = __action9(
-        &__start0,
-        &__end0,
-    );
-    let __temp0 = (__start0, __temp0, __end0);
-    __action15(
-        __0,
+    let __temp0 = __action11(
         __1,
+    )?;
+    let __temp0 = (__start0, __temp0, __end0);
+    Ok(__action14(
+        __0,
         __temp0,
-    )
+        __2,
+    ))
 }
 
 #[allow(clippy::too_many_arguments, clippy::needless_lifetimes,
     clippy::just_underscores_and_digits, clippy::clone_on_copy, clippy::unit_arg)]
 fn __action24<
 >(
-    __0: (i64, Tok, i64),
-    __1: (i64, Tree, i64),
-    __2: (i64, Tok, i64),
-) -> Tree
-{
-    let __start0 = __2.2.clone();
-    let __end0 = __2.2.clone();
-    let __temp0 = __action9(
-        &__start0,
-        &__end0,
-    );
-    let __temp0 = (__start0, __temp0, __end0);
-    __action16(
-        __0,
-        __1,
-        __2,
-        __temp0,
-    )
-}
-
-#[allow(clippy::too_many_arguments, clippy::needless_lifetimes,
-    clippy::just_underscores_and_digits, clippy::clone_on_copy, clippy::unit_arg)]
-fn __action25<
->(
     __0: (i64, Tree, i64),
     __1: (i64, Tok, i64),
-    __2: (i64, Tree, i64),
-    __3: (i64, Tree, i64),
-) -> Tree
-{
-    let __start0 = __3.2.clone();
-    let __end0 = __3.2.clone();
-    let __temp0 = __action9(
-        &__start0,
-        &__end0,
-    );
-    let __temp0 = (__start0, __temp0, __end0);
-    __action17(
-        __0,
-        __1,
-        __2,
-        __3,
-        __temp0,
-    )
-}
-
-#[allow(clippy::too_many_arguments, clippy::needless_lifetimes,
-    clippy::just_underscores_and_digits, clippy::clone_on_copy, clippy::unit_arg)]
-fn __action26<
->(
-    __0: (i64, Tree, i64),
-) -> Tree
-{
-    let __start0 = __0.2.clone();
-    let __end0 = __0.2.clone();
-    let __temp0 = __action9(
-        &__start0,
-        &__end0,
-    );
-    let __temp0 = (__start0, __temp0, __end0);
-    __action18(
-        __0,
-        __temp0,
-    )
-}
-
-#[allow(clippy::too_many_arguments, clippy::needless_lifetimes,
-    clippy::just_underscores_and_digits, clippy::clone_on_copy, clippy::unit_arg)]
-fn __action27<
->(
-    __0: (i64, Tok, i64),
-    __1: (i64, Tok, i64),
-) -> Tree
-{
-    let __start0 = __0.0.clone();
-    let __end0 = __0.2.clone();
-    let __start1 = __1.0.clone();
-    let __end1 = __1.2.clone();
-    let __temp0 = __action19(
-        __0,
-    );
-    let __temp0 = (__start0, __temp0, __end0);
-    let __temp1 = __action19(
-        __1,
-    );
-    let __temp1 = (__start1, __temp1, __end1);
-    __action23(
-        __temp0,
-        __temp1,
-    )
-}
-
-#[allow(clippy::too_many_arguments, clippy::needless_lifetimes,
-    clippy::just_underscores_and_digits, clippy::clone_on_copy, clippy::unit_arg)]
-fn __action28<
->(
-    __0: (i64, Tok, i64),
-    __1: (i64, Tok, i64),
     __2: (i64, Tok, i64),
 ) -> Tree
 {
-    let __start0 = __0.0.clone();
-    let __end0 = __0.2.clone();
-    let __start1 = __1.0.clone();
-    let __end1 = __2.2.clone();
-    let __temp0 = __action19(
-        __0,
-    );
-    let __temp0 = (__start0, __temp0, __end0);
-    let __temp1 = __action20(
-        __1,
-        __2,
-    );
-    let __temp1 = (__start1, __temp1, __end1);
-    __action23(
-        __temp0,
-        __temp1,
-    )
-}
-
-#[allow(clippy::too_many_arguments, clippy::needless_lifetimes,
-    clippy::just_underscores_and_digits, clippy::clone_on_copy, clippy::unit_arg)]
-fn __action29<
->(
-    __0: (i64, Tok, i64),
-    __1: (i64, Tok, i64),
-    __2: (i64, Tok, i64),
-) -> Tree
-{
-    let __start0 = __0.0.clone();
+    let __start0 = __1.0.clone();
     let __end0 = __1.2.clone();
-    let __start1 = __2.0.clone();
-    let __end1 = __2.2.clone();
-    let __temp0 = __action20(
-        __0,
+    let __temp0 = __action12(
         __1,
     );
     let __temp0 = (__start0, __temp0, __end0);
-    let __temp1 = __action19(
+    __action14(
+        __0,
+        __temp0,
         __2,
-    );
-    let __temp1 = (__start1, __temp1, __end1);
-    __action23(
-        __temp0,
-        __temp1,
-    )
-}
-
-#[allow(clippy::too_many_arguments, clippy::needless_lifetimes,
-    clippy::just_underscores_and_digits, clippy::clone_on_copy, clippy::unit_arg)]
-fn __action30<
->(
-    __0: (i64, Tok, i64),
-    __1: (i64, Tok, i64),
-    __2: (i64, Tok, i64),
-    __3: (i64, Tok, i64),
-) -> Tree
-{
-    let __start0 = __0.0.clone();
-    let __end0 = __1.2.clone();
-    let __start1 = __2.0.clone();
-    let __end1 = __3.2.clone();
-    let __temp0 = __action20(
-        __0,
-        __1,
-    );
-    let __temp0 = (__start0, __temp0, __end0);
-    let __temp1 = __action20(
-        __2,
-        __3,
-    );
-    let __temp1 = (__start1, __temp1, __end1);
-    __action23(
-        __temp0,
-        __temp1,
-    )
-}
-
-#[allow(clippy::too_many_arguments, clippy::needless_lifetimes,
-    clippy::just_underscores_and_digits, clippy::clone_on_copy, clippy::unit_arg)]
-fn __action31<
->(
-    __0: (i64, Tree, i64),
-    __1: (i64, Tok, i64),
-    __2: (i64, Tok, i64),
-    __3: (i64, Tok, i64),
-    __4: (i64, Tok, i64),
-    __5: (i64, Tok, i64),
-) -> Tree
-{
-    let __start0 = __2.0.clone();
-    let __end0 = __3.2.clone();
-    let __start1 = __4.0.clone();
-    let __end1 = __5.2.clone();
-    let __temp0 = __action27(
-        __2,
-        __3,
-    );
-    let __temp0 = (__start0, __temp0, __end0);
-    let __temp1 = __action27(
-        __4,
-        __5,
-    );
-    let __temp1 = (__start1, __temp1, __end1);
-    __action25(
-        __0,
-        __1,
-        __temp0,
-        __temp1,
-    )
-}
-
-#[allow(clippy::too_many_arguments, clippy::needless_lifetimes,
-    clippy::just_underscores_and_digits, clippy::clone_on_copy, clippy::unit_arg)]
-fn __action32<
->(
-    __0: (i64, Tree, i64),
-    __1: (i64, Tok, i64),
-    __2: (i64, Tok, i64),
-    __3: (i64, Tok, i64),
-    __4: (i64, Tok, i64),
-    __5: (i64, Tok, i64),
-    __6: (i64, Tok, i64),
-) -> Tree
-{
-    let __start0 = __2.0.clone();
-    let __end0 = __3.2.clone();
-    let __start1 = __4.0.clone();
-    let __end1 = __6.2.clone();
-    let __temp0 = __action27(
-        __2,
-        __3,
-    );
-    let __temp0 = (__start0, __temp0, __end0);
-    let __temp1 = __action28(
-        __4,
-        __5,
-        __6,
-    );
-    let __temp1 = (__start1, __temp1, __end1);
-    __action25(
-        __0,
-        __1,
-        __temp0,
-        __temp1,
-    )
-}
-
-#[allow(clippy::too_many_arguments, clippy::needless_lifetimes,
-    clippy::just_underscores_and_digits, clippy::clone_on_copy, clippy::unit_arg)]
-fn __action33<
->(
-    __0: (i64, Tree, i64),
-    __1: (i64, Tok, i64),
-    __2: (i64, Tok, i64),
-    __3: (i64, Tok, i64),
-    __4: (i64, Tok, i64),
-    __5: (i64, Tok, i64),
-    __6: (i64, Tok, i64),
-) -> Tree
-{
-    let __start0 = __2.0.clone();
-    let __end0 = __3.2.clone();
-    let __start1 = __4.0.clone();
-    let __end1 = __6.2.clone();
-    let __temp0 = __action27(
-        __2,
-        __3,
-    );
-    let __temp0 = (__start0, __temp0, __end0);
-    let __temp1 = __action29(
-        __4,
-        __5,
-        __6,
-    );
-    let __temp1 = (__start1, __temp1, __end1);
-    __action25(
-        __0,
-        __1,
-        __temp0,
-        __temp1,
-    )
-}
-
-#[allow(clippy::too_many_arguments, clippy::needless_lifetimes,
-    clippy::just_underscores_and_digits, clippy::clone_on_copy, clippy::unit_arg)]
-fn __action34<
->(
-    __0: (i64, Tree, i64),
-    __1: (i64, Tok, i64),
-    __2: (i64, Tok, i64),
-    __3: (i64, Tok, i64),
-    __4: (i64, Tok, i64),
-    __5: (i64, Tok, i64),
-    __6: (i64, Tok, i64),
-    __7: (i64, Tok, i64),
-) -> Tree
-{
-    let __start0 = __2.0.clone();
-    let __end0 = __3.2.clone();
-    let __start1 = __4.0.clone();
-    let __end1 = __7.2.clone();
-    let __temp0 = __action27(
-        __2,
-        __3,
-    );
-    let __temp0 = (__start0, __temp0, __end0);
-    let __temp1 = __action30(
-        __4,
-        __5,
-        __6,
-        __7,
-    );
-    let __temp1 = (__start1, __temp1, __end1);
-    __action25(
-        __0,
-        __1,
-        __temp0,
-        __temp1,
-    )
-}
-
-#[allow(clippy::too_many_arguments, clippy::needless_lifetimes,
-    clippy::just_underscores_and_digits, clippy::clone_on_copy, clippy::unit_arg)]
-fn __action35<
->(
-    __0: (i64, Tree, i64),
-    __1: (i64, Tok, i64),
-    __2: (i64, Tok, i64),
-    __3: (i64, Tok, i64),
-    __4: (i64, Tok, i64),
-    __5: (i64, Tree, i64),
-    __6: (i64, Tok, i64),
-) -> Tree
-{
-    let __start0 = __2.0.clone();
-    let __end0 = __3.2.clone();
-    let __start1 = __4.0.clone();
-    let __end1 = __6.2.clone();
-    let __temp0 = __action27(
-        __2,
-        __3,
-    );
-    let __temp0 = (__start0, __temp0, __end0);
-    let __temp1 = __action24(
-        __4,
-        __5,
-        __6,
-    );
-    let __temp1 = (__start1, __temp1, __end1);
-    __action25(
-        __0,
-        __1,
-        __temp0,
-        __temp1,
-    )
-}
-
-#[allow(clippy::too_many_arguments, clippy::needless_lifetimes,
-    clippy::just_underscores_and_digits, clippy::clone_on_copy, clippy::unit_arg)]
-fn __action36<
->(
-    __0: (i64, Tree, i64),
-    __1: (i64, Tok, i64),
-    __2: (i64, Tok, i64),
-    __3: (i64, Tok, i64),
-    __4: (i64, Tok, i64),
-    __5: (i64, Tok, i64),
-    __6: (i64, Tok, i64),
-) -> Tree
-{
-    let __start0 = __2.0.clone();
-    let __end0 = __4.2.clone();
-    let __start1 = __5.0.clone();
-    let __end1 = __6.2.clone();
-    let __temp0 = __action28(
-        __2,
-        __3,
-        __4,
-    );
-    let __temp0 = (__start0, __temp0, __end0);
-    let __temp1 = __action27(
-        __5,
-        __6,
-    );
-    let __temp1 = (__start1, __temp1, __end1);
-    __action25(
-        __0,
-        __1,
-        __temp0,
-        __temp1,
-    )
-}
-
-#[allow(clippy::too_many_arguments, clippy::needless_lifetimes,
-    clippy::just_underscores_and_digits, clippy::clone_on_copy, clippy::unit_arg)]
-fn __action37<
->(
-    __0: (i64, Tree, i64),
-    __1: (i64, Tok, i64),
-    __2: (i64, Tok, i64),
-    __3: (i64, Tok, i64),
-    __4: (i64, Tok, i64),
-    __5: (i64, Tok, i64),
-    __6: (i64, Tok, i64),
-    __7: (i64, Tok, i64),
-) -> Tree
-{
-    let __start0 = __2.0.clone();
-    let __end0 = __4.2.clone();
-    let __start1 = __5.0.clone();
-    let __end1 = __7.2.clone();
-    let __temp0 = __action28(
-        __2,
-        __3,
-        __4,
-    );
-    let __temp0 = (__start0, __temp0, __end0);
-    let __temp1 = __action28(
-        __5,
-        __6,
-        __7,
-    );
-    let __temp1 = (__start1, __temp1, __end1);
-    __action25(
-        __0,
-        __1,
-        __temp0,
-        __temp1,
-    )
-}
-
-#[allow(clippy::too_many_arguments, clippy::needless_lifetimes,
-    clippy::just_underscores_and_digits, clippy::clone_on_copy, clippy::unit_arg)]
-fn __action38<
->(
-    __0: (i64, Tree, i64),
-    __1: (i64, Tok, i64),
-    __2: (i64, Tok, i64),
-    __3: (i64, Tok, i64),
-    __4: (i64, Tok, i64),
-    __5: (i64, Tok, i64),
-    __6: (i64, Tok, i64),
-    __7: (i64, Tok, i64),
-) -> Tree
-{
-    let __start0 = __2.0.clone();
-    let __end0 = __4.2.clone();
-    let __start1 = __5.0.clone();
-    let __end1 = __7.2.clone();
-    let __temp0 = __action28(
-        __2,
-        __3,
-        __4,
-    );
-    let __temp0 = (__start0, __temp0, __end0);
-    let __temp1 = __action29(
-        __5,
-        __6,
-        __7,
-    );
-    let __temp1 = (__start1, __temp1, __end1);
-    __action25(
-        __0,
-        __1,
-        __temp0,
-        __temp1,
-    )
-}
-
-#[allow(clippy::too_many_arguments, clippy::needless_lifetimes,
-    clippy::just_underscores_and_digits, clippy::clone_on_copy, clippy::unit_arg)]
-fn __action39<
->(
-    __0: (i64, Tree, i64),
-    __1: (i64, Tok, i64),
-    __2: (i64, Tok, i64),
-    __3: (i64, Tok, i64),
-    __4: (i64, Tok, i64),
-    __5: (i64, Tok, i64),
-    __6: (i64, Tok, i64),
-    __7: (i64, Tok, i64),
-    __8: (i64, Tok, i64),
-) -> Tree
-{
-    let __start0 = __2.0.clone();
-    let __end0 = __4.2.clone();
-    let __start1 = __5.0.clone();
-    let __end1 = __8.2.clone();
-    let __temp0 = __action28(
-        __2,
-        __3,
-        __4,
-    );
-    let __temp0 = (__start0, __temp0, __end0);
-    let __temp1 = __action30(
-        __5,
-        __6,
-        __7,
-        __8,
-    );
-    let __temp1 = (__start1, __temp1, __end1);
-    __action25(
-        __0,
-        __1,
-        __temp0,
-        __temp1,
-    )
-}
-
-#[allow(clippy::too_many_arguments, clippy::needless_lifetimes,
-    clippy::just_underscores_and_digits, clippy::clone_on_copy, clippy::unit_arg)]
-fn __action40<
->(
-    __0: (i64, Tree, i64),
-    __1: (i64, Tok, i64),
-    __2: (i64, Tok, i64),
-    __3: (i64, Tok, i64),
-    __4: (i64, Tok, i64),
-    __5: (i64, Tok, i64),
-    __6: (i64, Tree, i64),
-    __7: (i64, Tok, i64),
-) -> Tree
-{
-    let __start0 = __2.0.clone();
-    let __end0 = __4.2.clone();
-    let __start1 = __5.0.clone();
-    let __end1 = __7.2.clone();
-    let __temp0 = __action28(
-        __2,
-        __3,
-        __4,
-    );
-    let __temp0 = (__start0, __temp0, __end0);
-    let __temp1 = __action24(
-        __5,
-        __6,
-        __7,
-    );
-    let __temp1 = (__start1, __temp1, __end1);
-    __action25(
-        __0,
-        __1,
-        __temp0,
-        __temp1,
-    )
-}
-
-#[allow(clippy::too_many_arguments, clippy::needless_lifetimes,
-    clippy::just_underscores_and_digits, clippy::clone_on_copy, clippy::unit_arg)]
-fn __action41<
->(
-    __0: (i64, Tree, i64),
-    __1: (i64, Tok, i64),
-    __2: (i64, Tok, i64),
-    __3: (i64, Tok, i64),
-    __4: (i64, Tok, i64),
-    __5: (i64, Tok, i64),
-    __6: (i64, Tok, i64),
-) -> Tree
-{
-    let __start0 = __2.0.clone();
-    let __end0 = __4.2.clone();
-    let __start1 = __5.0.clone();
-    let __end1 = __6.2.clone();
-    let __temp0 = __action29(
-        __2,
-        __3,
-        __4,
-    );
-    let __temp0 = (__start0, __temp0, __end0);
-    let __temp1 = __action27(
-        __5,
-        __6,
-    );
-    let __temp1 = (__start1, __temp1, __end1);
-    __action25(
-        __0,
-        __1,
-        __temp0,
-        __temp1,
-    )
-}
-
-#[allow(clippy::too_many_arguments, clippy::needless_lifetimes,
-    clippy::just_underscores_and_digits, clippy::clone_on_copy, clippy::unit_arg)]
-fn __action42<
->(
-    __0: (i64, Tree, i64),
-    __1: (i64, Tok, i64),
-    __2: (i64, Tok, i64),
-    __3: (i64, Tok, i64),
-    __4: (i64, Tok, i64),
-    __5: (i64, Tok, i64),
-    __6: (i64, Tok, i64),
-    __7: (i64, Tok, i64),
-) -> Tree
-{
-    let __start0 = __2.0.clone();
-    let __end0 = __4.2.clone();
-    let __start1 = __5.0.clone();
-    let __end1 = __7.2.clone();
-    let __temp0 = __action29(
-        __2,
-        __3,
-        __4,
-    );
-    let __temp0 = (__start0, __temp0, __end0);
-    let __temp1 = __action28(
-        __5,
-        __6,
-        __7,
-    );
-    let __temp1 = (__start1, __temp1, __end1);
-    __action25(
-        __0,
-        __1,
-        __temp0,
-        __temp1,
-    )
-}
-
-#[allow(clippy::too_many_arguments, clippy::needless_lifetimes,
-    clippy::just_underscores_and_digits, clippy::clone_on_copy, clippy::unit_arg)]
-fn __action43<
->(
-    __0: (i64, Tree, i64),
-    __1: (i64, Tok, i64),
-    __2: (i64, Tok, i64),
-    __3: (i64, Tok, i64),
-    __4: (i64, Tok, i64),
-    __5: (i64, Tok, i64),
-    __6: (i64, Tok, i64),
-    __7: (i64, Tok, i64),
-) -> Tree
-{
-    let __start0 = __2.0.clone();
-    let __end0 = __4.2.clone();
-    let __start1 = __5.0.clone();
-    let __end1 = __7.2.clone();
-    let __temp0 = __action29(
-        __2,
-        __3,
-        __4,
-    );
-    let __temp0 = (__start0, __temp0, __end0);
-    let __temp1 = __action29(
-        __5,
-        __6,
-        __7,
-    );
-    let __temp1 = (__start1, __temp1, __end1);
-    __action25(
-        __0,
-        __1,
-        __temp0,
-        __temp1,
-    )
-}
-
-#[allow(clippy::too_many_arguments, clippy::needless_lifetimes,
-    clippy::just_underscores_and_digits, clippy::clone_on_copy, clippy::unit_arg)]
-fn __action44<
->(
-    __0: (i64, Tree, i64),
-    __1: (i64, Tok, i64),
-    __2: (i64, Tok, i64),
-    __3: (i64, Tok, i64),
-    __4: (i64, Tok, i64),
-    __5: (i64, Tok, i64),
-    __6: (i64, Tok, i64),
-    __7: (i64, Tok, i64),
-    __8: (i64, Tok, i64),
-) -> Tree
-{
-    let __start0 = __2.0.clone();
-    let __end0 = __4.2.clone();
-    let __start1 = __5.0.clone();
-    let __end1 = __8.2.clone();
-    let __temp0 = __action29(
-        __2,
-        __3,
-        __4,
-    );
-    let __temp0 = (__start0, __temp0, __end0);
-    let __temp1 = __action30(
-        __5,
-        __6,
-        __7,
-        __8,
-    );
-    let __temp1 = (__start1, __temp1, __end1);
-    __action25(
-        __0,
-        __1,
-        __temp0,
-        __temp1,
-    )
-}
-
-#[allow(clippy::too_many_arguments, clippy::needless_lifetimes,
-    clippy::just_underscores_and_digits, clippy::clone_on_copy, clippy::unit_arg)]
-fn __action45<
->(
-    __0: (i64, Tree, i64),
-    __1: (i64, Tok, i64),
-    __2: (i64, Tok, i64),
-    __3: (i64, Tok, i64),
-    __4: (i64, Tok, i64),
-    __5: (i64, Tok, i64),
-    __6: (i64, Tree, i64),
-    __7: (i64, Tok, i64),
-) -> Tree
-{
-    let __start0 = __2.0.clone();
-    let __end0 = __4.2.clone();
-    let __start1 = __5.0.clone();
-    let __end1 = __7.2.clone();
-    let __temp0 = __action29(
-        __2,
-        __3,
-        __4,
-    );
-    let __temp0 = (__start0, __temp0, __end0);
-    let __temp1 = __action24(
-        __5,
-        __6,
-        __7,
-    );
-    let __temp1 = (__start1, __temp1, __end1);
-    __action25(
-        __0,
-        __1,
-        __temp0,
-        __temp1,
-    )
-}
-
-#[allow(clippy::too_many_arguments, clippy::needless_lifetimes,
-    clippy::just_underscores_and_digits, clippy::clone_on_copy, clippy::unit_arg)]
-fn __action46<
->(
-    __0: (i64, Tree, i64),
-    __1: (i64, Tok, i64),
-    __2: (i64, Tok, i64),
-    __3: (i64, Tok, i64),
-    __4: (i64, Tok, i64),
-    __5: (i64, Tok, i64),
-    __6: (i64, Tok, i64),
-    __7: (i64, Tok, i64),
-) -> Tree
-{
-    let __start0 = __2.0.clone();
-    let __end0 = __5.2.clone();
-    let __start1 = __6.0.clone();
-    let __end1 = __7.2.clone();
-    let __temp0 = __action30(
-        __2,
-        __3,
-        __4,
-        __5,
-    );
-    let __temp0 = (__start0, __temp0, __end0);
-    let __temp1 = __action27(
-        __6,
-        __7,
-    );
-    let __temp1 = (__start1, __temp1, __end1);
-    __action25(
-        __0,
-        __1,
-        __temp0,
-        __temp1,
-    )
-}
-
-#[allow(clippy::too_many_arguments, clippy::needless_lifetimes,
-    clippy::just_underscores_and_digits, clippy::clone_on_copy, clippy::unit_arg)]
-fn __action47<
->(
-    __0: (i64, Tree, i64),
-    __1: (i64, Tok, i64),
-    __2: (i64, Tok, i64),
-    __3: (i64, Tok, i64),
-    __4: (i64, Tok, i64),
-    __5: (i64, Tok, i64),
-    __6: (i64, Tok, i64),
-    __7: (i64, Tok, i64),
-    __8: (i64, Tok, i64),
-) -> Tree
-{
-    let __start0 = __2.0.clone();
-    let __end0 = __5.2.clone();
-    let __start1 = __6.0.clone();
-    let __end1 = __8.2.clone();
-    let __temp0 = __action30(
-        __2,
-        __3,
-        __4,
-        __5,
-    );
-    let __temp0 = (__start0, __temp0, __end0);
-    let __temp1 = __action28(
-        __6,
-        __7,
-        __8,
-    );
-    let __temp1 = (__start1, __temp1, __end1);
-    __action25(
-        __0,
-        __1,
-        __temp0,
-        __temp1,
-    )
-}
-
-#[allow(clippy::too_many_arguments, clippy::needless_lifetimes,
-    clippy::just_underscores_and_digits, clippy::clone_on_copy, clippy::unit_arg)]
-fn __action48<
->(
-    __0: (i64, Tree, i64),
-    __1: (i64, Tok, i64),
-    __2: (i64, Tok, i64),
-    __3: (i64, Tok, i64),
-    __4: (i64, Tok, i64),
-    __5: (i64, Tok, i64),
-    __6: (i64, Tok, i64),
-    __7: (i64, Tok, i64),
-    __8: (i64, Tok, i64),
-) -> Tree
-{
-    let __start0 = __2.0.clone();
-    let __end0 = __5.2.clone();
-    let __start1 = __6.0.clone();
-    let __end1 = __8.2.clone();
-    let __temp0 = __action30(
-        __2,
-        __3,
-        __4,
-        __5,
-    );
-    let __temp0 = (__start0, __temp0, __end0);
-    let __temp1 = __action29(
-        __6,
-        __7,
-        __8,
-    );
-    let __temp1 = (__start1, __temp1, __end1);
-    __action25(
-        __0,
-        __1,
-        __temp0,
-        __temp1,
-    )
-}
-
-#[allow(clippy::too_many_arguments, clippy::needless_lifetimes,
-    clippy::just_underscores_and_digits, clippy::clone_on_copy, clippy::unit_arg)]
-fn __action49<
->(
-    __0: (i64, Tree, i64),
-    __1: (i64, Tok, i64),
-    __2: (i64, Tok, i64),
-    __3: (i64, Tok, i64),
-    __4: (i64, Tok, i64),
-    __5: (i64, Tok, i64),
-    __6: (i64, Tok, i64),
-    __7: (i64, Tok, i64),
-    __8: (i64, Tok, i64),
-    __9: (i64, Tok, i64),
-) -> Tree
-{
-    let __start0 = __2.0.clone();
-    let __end0 = __5.2.clone();
-    let __start1 = __6.0.clone();
-    let __end1 = __9.2.clone();
-    let __temp0 = __action30(
-        __2,
-        __3,
-        __4,
-        __5,
-    );
-    let __temp0 = (__start0, __temp0, __end0);
-    let __temp1 = __action30(
-        __6,
-        __7,
-        __8,
-        __9,
-    );
-    let __temp1 = (__start1, __temp1, __end1);
-    __action25(
-        __0,
-        __1,
-        __temp0,
-        __temp1,
-    )
-}
-
-#[allow(clippy::too_many_arguments, clippy::needless_lifetimes,
-    clippy::just_underscores_and_digits, clippy::clone_on_copy, clippy::unit_arg)]
-fn __action50<
->(
-    __0: (i64, Tree, i64),
-    __1: (i64, Tok, i64),
-    __2: (i64, Tok, i64),
-    __3: (i64, Tok, i64),
-    __4: (i64, Tok, i64),
-    __5: (i64, Tok, i64),
-    __6: (i64, Tok, i64),
-    __7: (i64, Tree, i64),
-    __8: (i64, Tok, i64),
-) -> Tree
-{
-    let __start0 = __2.0.clone();
-    let __end0 = __5.2.clone();
-    let __start1 = __6.0.clone();
-    let __end1 = __8.2.clone();
-    let __temp0 = __action30(
-        __2,
-        __3,
-        __4,
-        __5,
-    );
-    let __temp0 = (__start0, __temp0, __end0);
-    let __temp1 = __action24(
-        __6,
-        __7,
-        __8,
-    );
-    let __temp1 = (__start1, __temp1, __end1);
-    __action25(
-        __0,
-        __1,
-        __temp0,
-        __temp1,
-    )
-}
-
-#[allow(clippy::too_many_arguments, clippy::needless_lifetimes,
-    clippy::just_underscores_and_digits, clippy::clone_on_copy, clippy::unit_arg)]
-fn __action51<
->(
-    __0: (i64, Tree, i64),
-    __1: (i64, Tok, i64),
-    __2: (i64, Tok, i64),
-    __3: (i64, Tree, i64),
-    __4: (i64, Tok, i64),
-    __5: (i64, Tok, i64),
-    __6: (i64, Tok, i64),
-) -> Tree
-{
-    let __start0 = __2.0.clone();
-    let __end0 = __4.2.clone();
-    let __start1 = __5.0.clone();
-    let __end1 = __6.2.clone();
-    let __temp0 = __action24(
-        __2,
-        __3,
-        __4,
-    );
-    let __temp0 = (__start0, __temp0, __end0);
-    let __temp1 = __action27(
-        __5,
-        __6,
-    );
-    let __temp1 = (__start1, __temp1, __end1);
-    __action25(
-        __0,
-        __1,
-        __temp0,
-        __temp1,
-    )
-}
-
-#[allow(clippy::too_many_arguments, clippy::needless_lifetimes,
-    clippy::just_underscores_and_digits, clippy::clone_on_copy, clippy::unit_arg)]
-fn __action52<
->(
-    __0: (i64, Tree, i64),
-    __1: (i64, Tok, i64),
-    __2: (i64, Tok, i64),
-    __3: (i64, Tree, i64),
-    __4: (i64, Tok, i64),
-    __5: (i64, Tok, i64),
-    __6: (i64, Tok, i64),
-    __7: (i64, Tok, i64),
-) -> Tree
-{
-    let __start0 = __2.0.clone();
-    let __end0 = __4.2.clone();
-    let __start1 = __5.0.clone();
-    let __end1 = __7.2.clone();
-    let __temp0 = __action24(
-        __2,
-        __3,
-        __4,
-    );
-    let __temp0 = (__start0, __temp0, __end0);
-    let __temp1 = __action28(
-        __5,
-        __6,
-        __7,
-    );
-    let __temp1 = (__start1, __temp1, __end1);
-    __action25(
-        __0,
-        __1,
-        __temp0,
-        __temp1,
-    )
-}
-
-#[allow(clippy::too_many_arguments, clippy::needless_lifetimes,
-    clippy::just_underscores_and_digits, clippy::clone_on_copy, clippy::unit_arg)]
-fn __action53<
->(
-    __0: (i64, Tree, i64),
-    __1: (i64, Tok, i64),
-    __2: (i64, Tok, i64),
-    __3: (i64, Tree, i64),
-    __4: (i64, Tok, i64),
-    __5: (i64, Tok, i64),
-    __6: (i64, Tok, i64),
-    __7: (i64, Tok, i64),
-) -> Tree
-{
-    let __start0 = __2.0.clone();
-    let __end0 = __4.2.clone();
-    let __start1 = __5.0.clone();
-    let __end1 = __7.2.clone();
-    let __temp0 = __action24(
-        __2,
-        __3,
-        __4,
-    );
-    let __temp0 = (__start0, __temp0, __end0);
-    let __temp1 = __action29(
-        __5,
-        __6,
-        __7,
-    );
-    let __temp1 = (__start1, __temp1, __end1);
-    __action25(
-        __0,
-        __1,
-        __temp0,
-        __temp1,
-    )
-}
-
-#[allow(clippy::too_many_arguments, clippy::needless_lifetimes,
-    clippy::just_underscores_and_digits, clippy::clone_on_copy, clippy::unit_arg)]
-fn __action54<
->(
-    __0: (i64, Tree, i64),
-    __1: (i64, Tok, i64),
-    __2: (i64, Tok, i64),
-    __3: (i64, Tree, i64),
-    __4: (i64, Tok, i64),
-    __5: (i64, Tok, i64),
-    __6: (i64, Tok, i64),
-    __7: (i64, Tok, i64),
-    __8: (i64, Tok, i64),
-) -> Tree
-{
-    let __start0 = __2.0.clone();
-    let __end0 = __4.2.clone();
-    let __start1 = __5.0.clone();
-    let __end1 = __8.2.clone();
-    let __temp0 = __action24(
-        __2,
-        __3,
-        __4,
-    );
-    let __temp0 = (__start0, __temp0, __end0);
-    let __temp1 = __action30(
-        __5,
-        __6,
-        __7,
-        __8,
-    );
-    let __temp1 = (__start1, __temp1, __end1);
-    __action25(
-        __0,
-        __1,
-        __temp0,
-        __temp1,
-    )
-}
-
-#[allow(clippy::too_many_arguments, clippy::needless_lifetimes,
-    clippy::just_underscores_and_digits, clippy::clone_on_copy, clippy::unit_arg)]
-fn __action55<
->(
-    __0: (i64, Tree, i64),
-    __1: (i64, Tok, i64),
-    __2: (i64, Tok, i64),
-    __3: (i64, Tree, i64),
-    __4: (i64, Tok, i64),
-    __5: (i64, Tok, i64),
-    __6: (i64, Tree, i64),
-    __7: (i64, Tok, i64),
-) -> Tree
-{
-    let __start0 = __2.0.clone();
-    let __end0 = __4.2.clone();
-    let __start1 = __5.0.clone();
-    let __end1 = __7.2.clone();
-    let __temp0 = __action24(
-        __2,
-        __3,
-        __4,
-    );
-    let __temp0 = (__start0, __temp0, __end0);
-    let __temp1 = __action24(
-        __5,
-        __6,
-        __7,
-    );
-    let __temp1 = (__start1, __temp1, __end1);
-    __action25(
-        __0,
-        __1,
-        __temp0,
-        __temp1,
-    )
-}
-
-#[allow(clippy::too_many_arguments, clippy::needless_lifetimes,
-    clippy::just_underscores_and_digits, clippy::clone_on_copy, clippy::unit_arg)]
-fn __action56<
->(
-    __0: (i64, Tok, i64),
-    __1: (i64, Tok, i64),
-) -> Tree
-{
-    let __start0 = __0.0.clone();
-    let __end0 = __1.2.clone();
-    let __temp0 = __action27(
-        __0,
-        __1,
-    );
-    let __temp0 = (__start0, __temp0, __end0);
-    __action26(
-        __temp0,
-    )
-}
-
-#[allow(clippy::too_many_arguments, clippy::needless_lifetimes,
-    clippy::just_underscores_and_digits, clippy::clone_on_copy, clippy::unit_arg)]
-fn __action57<
->(
-    __0: (i64, Tok, i64),
-    __1: (i64, Tok, i64),
-    __2: (i64, Tok, i64),
-) -> Tree
-{
-    let __start0 = __0.0.clone();
-    let __end0 = __2.2.clone();
-    let __temp0 = __action28(
-        __0,
-        __1,
-        __2,
-    );
-    let __temp0 = (__start0, __temp0, __end0);
-    __action26(
-        __temp0,
-    )
-}
-
-#[allow(clippy::too_many_arguments, clippy::needless_lifetimes,
-    clippy::just_underscores_and_digits, clippy::clone_on_copy, clippy::unit_arg)]
-fn __action58<
->(
-    __0: (i64, Tok, i64),
-    __1: (i64, Tok, i64),
-    __2: (i64, Tok, i64),
-) -> Tree
-{
-    let __start0 = __0.0.clone();
-    let __end0 = __2.2.clone();
-    let __temp0 = __action29(
-        __0,
-        __1,
-        __2,
-    );
-    let __temp0 = (__start0, __temp0, __end0);
-    __action26(
-        __temp0,
-    )
-}
-
-#[allow(clippy::too_many_arguments, clippy::needless_lifetimes,
-    clippy::just_underscores_and_digits, clippy::clone_on_copy, clippy::unit_arg)]
-fn __action59<
->(
-    __0: (i64, Tok, i64),
-    __1: (i64, Tok, i64),
-    __2: (i64, Tok, i64),
-    __3: (i64, Tok, i64),
-) -> Tree
-{
-    let __start0 = __0.0.clone();
-    let __end0 = __3.2.clone();
-    let __temp0 = __action30(
-        __0,
-        __1,
-        __2,
-        __3,
-    );
-    let __temp0 = (__start0, __temp0, __end0);
-    __action26(
-        __temp0,
-    )
-}
-
-#[allow(clippy::too_many_arguments, clippy::needless_lifetimes,
-    clippy::just_underscores_and_digits, clippy::clone_on_copy, clippy::unit_arg)]
-fn __action60<
->(
-    __0: (i64, Tok, i64),
-    __1: (i64, Tree, i64),
-    __2: (i64, Tok, i64),
-) -> Tree
-{
-    let __start0 = __0.0.clone();
-    let __end0 = __2.2.clone();
-    let __temp0 = __action24(
-        __0,
-        __1,
-        __2,
-    );
-    let __temp0 = (__start0, __temp0, __end0);
-    __action26(
-        __temp0,
     )
 }
 
